@@ -1,11 +1,41 @@
 """C06 — subtree extraction and pruning: sidecar contracts."""
 import z3
 
+from pyvc import ext_C06
+from pyvc.ext_C06 import SymSet
 from pyvc.spec import Registry
 from pyvc.values import SArr, Sym, fresh_name, to_z3, zint
 
+ext_C06.install()  # library models of this property: Python sets of ints, any / all over symbolic bool lists
+
 SUB = "swcgeom/core/swc_utils/subtree.py"
 REMOVAL = -2
+
+
+def local_collection_name(key, kind, default="removals"):
+    """name of the carrier's local that collects the removals, read off its current AST (so that the local may be renamed):
+    kind 'list' -> the first local initialised with `[]`, kind 'set' -> the first local initialised with `set(...)`"""
+    import ast
+
+    from pyvc import extract
+
+    try:
+        node, _, _ = extract.find(key)
+    except (KeyError, OSError):
+        return default
+    for st in node.body:
+        val, tgt = getattr(st, "value", None), None
+        if isinstance(st, ast.AnnAssign) and isinstance(st.target, ast.Name):
+            tgt = st.target.id
+        elif isinstance(st, ast.Assign) and len(st.targets) == 1 and isinstance(st.targets[0], ast.Name):
+            tgt = st.targets[0].id
+        if tgt is None or val is None:
+            continue
+        if kind == "list" and isinstance(val, ast.List) and not val.elts:
+            return tgt
+        if kind == "set" and isinstance(val, ast.Call) and isinstance(val.func, ast.Name) and val.func.id == "set":
+            return tgt
+    return default
 
 
 PPOS = z3.Function("parent_pos", z3.IntSort(), z3.IntSort())  # ghost: position of a kept entry's parent entry
@@ -182,6 +212,7 @@ class GhostList:
     """marker class of a ghost-state object"""
 
 TU = "swcgeom/core/tree_utils.py"
+_SUBTREE_KIT = {}  # helpers of register_subtree shared with the later sections
 EXTRA6 = "w"
 
 
@@ -189,7 +220,7 @@ def register_subtree(R):
     from contracts.C04 import depth
     from contracts.common import COLS, assume_wf, col, nof, sym_tree
     from pyvc.traverse_rule import Rule
-    from pyvc.values import Obj, PDict, PList
+    from pyvc.values import Obj, PDict, PList, fresh
 
     I = z3.IntSort()
     sel = z3.Select
@@ -210,13 +241,21 @@ def register_subtree(R):
     def all_cols(t):
         return dict(t.fields["ndata"].items)
 
+    def list_view(L):
+        if L.items is None:
+            return L.cols[0], zint(L.n)
+        a = z3.K(I, z3.IntVal(0))
+        for k, x in enumerate(L.items):
+            a = z3.Store(a, k, to_z3(x, "int"))
+        return a, z3.IntVal(len(L.items))
+
     # ------------------------------------------------------------------ to_subtree_impl
     def impl_setup(kind):
         def f(S):
             t = wf_tree(S)
             n = nof(t)
             sid, spid = S.arr("int", n=S.int("sn"), name="sub_id"), S.arr("int", name="sub_pid")
-            out = None if kind == "none" else PList([7, 8])
+            out = None if kind == "none" else (PList([7, 8]) if kind == "list" else S.pdict("int", name="out_mapping"))
             return dict(swc_like=t, sub=(sid, spid), out_mapping=out)
 
         return f
@@ -229,6 +268,32 @@ def register_subtree(R):
     def topo_call(E):
         calls = [kw for nm, kw in E.call_log if nm == "to_sub_topology"]
         return calls[0] if len(calls) == 1 else None
+
+    def mapping_reported(om, mapping):
+        """the caller's out_mapping (None / list / dict) holds exactly new id -> old id"""
+        m = mapping.nz()
+        k = z3.Int(fresh_name("k"))
+        if om is None:
+            return True
+        if isinstance(om, PDict):
+            if om.items is not None:
+                return False
+            return z3.ForAll([k], z3.And(sel(om.dom, k) == z3.And(k >= 0, k < m), z3.Implies(z3.And(k >= 0, k < m), sel(om.val, k) == mapping.get(k).z)))
+        if not isinstance(om, PList) or om.items is not None:
+            return False
+        return z3.And(zint(om.n) == m, z3.ForAll([k], z3.Implies(z3.And(k >= 0, k < m), sel(om.cols[0], k) == mapping.get(k).z)))
+
+    def dict_fill_inv(E, v, o):
+        """loop of the dict form: keys 0..k-1 filled with the old ids, nothing else in the dict"""
+        om, mapping = v["out_mapping"], v["mapping"]
+        if not isinstance(om, PDict) or om.items is not None:
+            return False
+        kk = to_z3(v["_k0"], "int")
+        j = z3.Int(fresh_name("j"))
+        return z3.ForAll([j], z3.And(sel(om.dom, j) == z3.And(j >= 0, j < kk), z3.Implies(z3.And(j >= 0, j < kk), sel(om.val, j) == mapping.get(j).z)))
+
+    # the loop variable `new_id` shadows the array of that name (already stored in ndata): at the loop head it is an int
+    DICT_LOOP = {0: dict(invariant=[("keys-so-far-map-to-the-old-ids", dict_fill_inv)], rebind={"new_id": lambda eng, cur: fresh("int", "new_id")})}
 
     def impl_post(which):
         def f(E, v, o):
@@ -259,12 +324,7 @@ def register_subtree(R):
             if which == "source-and-names-kept":
                 return source is t.fields["source"] or source == t.fields["source"]
             if which == "mapping-reported":
-                om = v["out_mapping"]
-                if om is None:
-                    return True
-                if om.items is not None:
-                    return False
-                return z3.And(zint(om.n) == m, z3.ForAll([k], z3.Implies(z3.And(k >= 0, k < m), z3.Select(om.cols[0], k) == mapping.get(k).z)))
+                return mapping_reported(v["out_mapping"], mapping)
             raise KeyError(which)
 
         return f
@@ -279,21 +339,66 @@ def register_subtree(R):
         return (m, nd, t.fields["source"], t.fields["names"])
 
     R.add(f"{IMPL}:to_subtree_impl", prop="C06",
-          variants={"no-mapping-requested": impl_setup("none"), "mapping-into-a-list": impl_setup("list")},
+          variants={"no-mapping-requested": impl_setup("none"), "mapping-into-a-list": impl_setup("list"), "mapping-into-a-dict": impl_setup("dict")},
           requires=[sub_pre("same-length"), sub_pre("kept-ids-pairwise-distinct"), sub_pre("kept-parents-are-kept-entries"), ("kept-ids-are-nodes-of-the-tree", impl_pre_inrange)],
           ensures=[(nm, impl_post(nm)) for nm in IMPL_POSTS],
-          notes="the dict form of out_mapping is covered by the bounded stand-in only")
+          loops=DICT_LOOP,
+          notes="out_mapping: None, a list or a dict (any previous content is discarded)")
 
     # ------------------------------------------------------------------ to_subtree
-    def ts_setup(S):
-        t = wf_tree(S)
-        n = nof(t)
-        rem = S.plist("int", name="removals")
-        j, i = z3.Int(fresh_name("j")), z3.Int(fresh_name("i"))
-        S.assume(z3.ForAll([j], z3.Implies(z3.And(j >= 0, j < zint(rem.n)), z3.And(sel(rem.cols[0], j) >= 0, sel(rem.cols[0], j) < n))))
-        # ghost definition: a kept entry's parent entry is the parent node (ids are positions)
-        S.assume(z3.ForAll([i], PPOS(i) == sel(col(t, "pid").arr, i)))
-        return dict(swc_like=t, removals=rem, out_mapping=None)
+    def raw_tree(S, name="t"):
+        return sym_tree(S, name, frozen=True, extra_cols=(EXTRA6,))
+
+    def wf_clause(which, tname="swc_like"):
+        """well-formed input tree (a PRECONDITION: proved at every modular call site); tname: parameter name or getter(vars)"""
+        def f(E, v, o):
+            t = tname(v) if callable(tname) else v[tname]
+            n = nof(t)
+            i = z3.Int(fresh_name("i"))
+            idc, pid = col(t, "id").arr, col(t, "pid").arr
+            if which == "ids-are-positions":
+                return z3.ForAll([i], z3.Implies(z3.And(i >= 0, i < n), sel(idc, i) == i))
+            if which == "node-0-is-the-root-and-parents-exist":
+                return z3.And(sel(pid, 0) == -1, z3.ForAll([i], z3.Implies(z3.And(i > 0, i < n), z3.And(sel(pid, i) >= 0, sel(pid, i) < n))))
+            if which == "every-node-reaches-the-root":
+                return z3.And(depth(0) == 0, z3.ForAll([i], z3.Implies(z3.And(i > 0, i < n), z3.And(depth(i) == depth(sel(pid, i)) + 1, depth(i) > 0))))
+            raise KeyError(which)
+
+        return (which, f)
+
+    WF = ["ids-are-positions", "node-0-is-the-root-and-parents-exist", "every-node-reaches-the-root"]
+
+    def ts_setup(kind, out_kind="none"):
+        def f(S):
+            t = raw_tree(S)
+            if kind == "list":
+                rem = S.plist("int", name="removals")
+            else:
+                rem = SymSet(z3.Const(fresh_name("removals_mem"), z3.ArraySort(I, z3.BoolSort())), "removals")
+            rem.frozen = True  # the caller's collection of removals is an input: a store into it is a failed frame obligation
+            i = z3.Int(fresh_name("i"))
+            # ghost definition: a kept entry's parent entry is the parent node (ids are positions)
+            S.assume(z3.ForAll([i], PPOS(i) == sel(col(t, "pid").arr, i)))
+            out = None if out_kind == "none" else (PList([7, 8]) if out_kind == "list" else S.pdict("int", name="out_mapping"))  # previous content is discarded
+            return dict(swc_like=t, removals=rem, out_mapping=out)
+
+        return f
+
+    def rem_member(rem):
+        """x -> `x is requested for removal` (a list / array of ids, or a set of ids)"""
+        if isinstance(rem, SymSet):
+            return lambda x: rem.has(x)
+        A, ln = list_view(rem)
+        j = z3.Int(fresh_name("j"))
+        return lambda x: z3.Exists([j], z3.And(j >= 0, j < ln, sel(A, j) == x))
+
+    def ts_pre_removals(E, v, o):
+        rem, n = v["removals"], nof(v["swc_like"])
+        j = z3.Int(fresh_name("j"))
+        if isinstance(rem, SymSet):
+            return z3.ForAll([j], z3.Implies(rem.has(j), z3.And(j >= 0, j < n)))
+        A, ln = list_view(rem)
+        return z3.ForAll([j], z3.Implies(z3.And(j >= 0, j < ln), z3.And(sel(A, j) >= 0, sel(A, j) < n)))
 
     def ts_inv(which):
         def f(E, v, o):
@@ -303,79 +408,115 @@ def register_subtree(R):
             k = to_z3(v["_k0"], "int")
             x, j = z3.Int(fresh_name("x")), z3.Int(fresh_name("j"))
             a = v["new_ids"]
-            listed = z3.Exists([j], z3.And(j >= 0, j < k, sel(rem.cols[0], j) == x))
+            if isinstance(rem, SymSet):  # the loop walks a ghost enumeration of the members (each once): pos = position in it
+                ks, m, pos, mem0 = E.ghost[("setelems-last", rem.uid)]
+                listed = z3.And(sel(mem0, x), pos(x) < k)
+            else:
+                A, ln = list_view(rem)
+                listed = z3.Exists([j], z3.And(j >= 0, j < k, sel(A, j) == x))
             if which == "marks-so-far":
                 return z3.And(a.nz() == n, a.uid not in E.entry_uids, z3.ForAll([x], z3.Implies(z3.And(x >= 0, x < n), a.get(x).z == z3.If(listed, z3.IntVal(REMOVAL), x))))
 
         return f
 
+    def ts_result(S, fr):
+        """shape of to_subtree's result at call sites: a new Tree of m nodes on fresh columns, with the ghost outputs of the
+        contract (new-to-old mapping, its inverse rho, the removal closure Rm) attached for the caller's clauses"""
+        from swcgeom.core.swc_utils import get_types
+        from swcgeom.core.tree import Tree
+
+        t = fr.vars["swc_like"]
+        m = S.int("m")
+        S.assume(m.z >= 0)
+        nd = PDict({c: SArr.fresh(a.kind, m.z, name="sub_" + c) for c, a in all_cols(t).items()})
+        res = Obj(Tree, dict(types=get_types(), source=t.fields["source"], comments=PList([]), names=t.fields["names"], ndata=nd))
+        tag = fresh_name("ts")
+        res.ghost6 = dict(mapping=SArr.fresh("int", m.z, name="mapping"), kappa=z3.Function("kappa_" + tag, I, I), rho=z3.Function("rho_" + tag, I, I), Rm=z3.Function("Rm_" + tag, I, z3.BoolSort()))
+        return res
+
+    def sub_ghost(E, res):
+        """(mapping, kappa, rho, Rm) of a tree produced by to_subtree: read off the carrier's own calls inside to_subtree's proof,
+        off the ghost outputs of the modular result at a call site"""
+        g = getattr(res, "ghost6", None)
+        if g is not None:
+            return g["mapping"], g["kappa"], g["rho"], g["Rm"]
+        c = topo_call(E)
+        if c is None or "Rm" not in E.spec_extra:
+            return None
+        (new_id, new_pid), mapping = c["__result__"]
+        return mapping, mapping.kappa, mapping.rho, E.spec_extra["Rm"]
+
+    def subtree_clause(E, which, res, t, gh, seed=None):
+        """the clauses of `res = the tree that keeps exactly the nodes of t outside Rm` (shared by to_subtree and its clients)"""
+        if not isinstance(res, Obj) or gh is None:
+            return False
+        mapping, kappa, rho, Rm = gh
+        n, m = nof(t), mapping.nz()
+        k, x, j = z3.Int(fresh_name("k")), z3.Int(fresh_name("x")), z3.Int(fresh_name("j"))
+        pid0 = col(t, "pid").arr
+        rc = all_cols(res)
+        if which == "removal-closure-is-removed-or-below-a-removed-node":
+            # Rm is THE closure of the seed set (the requested removals)
+            return z3.ForAll([x], z3.Implies(z3.And(x >= 0, x < n), Rm(x) == z3.Or(seed(x), z3.And(sel(pid0, x) >= 0, Rm(sel(pid0, x))))))
+        if which == "survivors-are-exactly-the-nodes-outside-the-closure-in-order":
+            return z3.And(m <= n, z3.ForAll([k], z3.Implies(z3.And(k >= 0, k < m), z3.And(mapping.get(k).z >= 0, mapping.get(k).z < n, z3.Not(Rm(mapping.get(k).z)), mapping.get(k).z == kappa(k)))),
+                          z3.ForAll([k, j], z3.Implies(z3.And(0 <= k, k < j, j < m), mapping.get(k).z < mapping.get(j).z)),
+                          z3.ForAll([x], z3.Implies(z3.And(x >= 0, x < n, z3.Not(Rm(x))), z3.And(rho(x) >= 0, rho(x) < m, mapping.get(rho(x)).z == x))))
+        if which == "survivors-keep-every-attribute":
+            if set(rc) != set(all_cols(t)):
+                return False
+            out = []
+            for cname, src in all_cols(t).items():
+                if cname in ("id", "pid"):
+                    continue
+                a = rc[cname]
+                out.append(z3.And(a.nz() == m, z3.ForAll([k], z3.Implies(z3.And(k >= 0, k < m), a.get(k).z == src.get(mapping.get(k).z).z))))
+            return z3.And(*out)
+        if which == "ids-are-positions-and-parent-relation-kept":
+            q = rc["pid"].get(k).z
+            p = sel(pid0, mapping.get(k).z)
+            return z3.And(rc["id"].nz() == m, rc["pid"].nz() == m,
+                          z3.ForAll([k], z3.Implies(z3.And(k >= 0, k < m), z3.And(rc["id"].get(k).z == k, z3.If(p == -1, q == -1, z3.And(q >= 0, q < m, mapping.get(q).z == p))))))
+        if which == "result-shares-no-storage-with-the-input":
+            return all(a.uid not in E.entry_uids for a in rc.values()) and res.uid not in E.entry_uids and res.fields["ndata"].uid not in E.entry_uids
+        raise KeyError(which)
+
     def ts_post(which):
         def f(E, v, o):
-            res = v["result"]
-            t = o["swc_like"]
-            if not isinstance(res, Obj):
-                return False
-            Rm = E.spec_extra["Rm"]
-            c = topo_call(E)
-            if c is None:
-                return False
-            (new_id, new_pid), mapping = c["__result__"]
-            kappa, rho = mapping.kappa, mapping.rho
-            n, m = nof(t), mapping.nz()
-            k, x, j = z3.Int(fresh_name("k")), z3.Int(fresh_name("x")), z3.Int(fresh_name("j"))
-            rem = o["removals"]
-            pid0 = col(t, "pid").arr
-            rc = all_cols(res)
-            if which == "removal-closure-is-removed-or-below-a-removed-node":
-                # Rm is THE closure of the requested removals
-                return z3.ForAll([x], z3.Implies(z3.And(x >= 0, x < n), Rm(x) == z3.Or(z3.Exists([j], z3.And(j >= 0, j < zint(rem.n), sel(rem.cols[0], j) == x)),
-                                                                                       z3.And(sel(pid0, x) >= 0, Rm(sel(pid0, x))))))
-            if which == "survivors-are-exactly-the-nodes-outside-the-closure-in-order":
-                return z3.And(z3.ForAll([k], z3.Implies(z3.And(k >= 0, k < m), z3.And(mapping.get(k).z >= 0, mapping.get(k).z < n, z3.Not(Rm(mapping.get(k).z)), mapping.get(k).z == kappa(k)))),
-                              z3.ForAll([k, j], z3.Implies(z3.And(0 <= k, k < j, j < m), mapping.get(k).z < mapping.get(j).z)),
-                              z3.ForAll([x], z3.Implies(z3.And(x >= 0, x < n, z3.Not(Rm(x))), z3.And(rho(x) >= 0, rho(x) < m, mapping.get(rho(x)).z == x))))
-            if which == "survivors-keep-every-attribute":
-                out = [set(rc) == set(all_cols(t))]
-                for cname, src in all_cols(t).items():
-                    if cname in ("id", "pid"):
-                        continue
-                    a = rc[cname]
-                    out.append(z3.And(a.nz() == m, z3.ForAll([k], z3.Implies(z3.And(k >= 0, k < m), a.get(k).z == src.get(mapping.get(k).z).z))))
-                return z3.And(*[q if not isinstance(q, bool) else z3.BoolVal(q) for q in out])
-            if which == "ids-are-positions-and-parent-relation-kept":
-                q = rc["pid"].get(k).z
-                p = sel(pid0, mapping.get(k).z)
-                return z3.And(rc["id"].nz() == m, rc["pid"].nz() == m,
-                              z3.ForAll([k], z3.Implies(z3.And(k >= 0, k < m), z3.And(rc["id"].get(k).z == k, z3.If(p == -1, q == -1, z3.And(q >= 0, q < m, mapping.get(q).z == p))))))
-            if which == "result-shares-no-storage-with-the-input":
-                return all(a.uid not in E.entry_uids for a in rc.values())
-            raise KeyError(which)
+            res, t = v["result"], o["swc_like"]
+            if which == "mapping-reported":
+                gh = sub_ghost(E, res)
+                return False if gh is None else mapping_reported(v["out_mapping"], gh[0])
+            return subtree_clause(E, which, res, t, sub_ghost(E, res), seed=rem_member(o["removals"]))
 
         return f
 
     TS_POSTS = ["removal-closure-is-removed-or-below-a-removed-node", "survivors-are-exactly-the-nodes-outside-the-closure-in-order", "survivors-keep-every-attribute",
-                "ids-are-positions-and-parent-relation-kept", "result-shares-no-storage-with-the-input"]
-    R.add(f"{TU}:to_subtree", prop="C06", setup=ts_setup,
+                "ids-are-positions-and-parent-relation-kept", "result-shares-no-storage-with-the-input", "mapping-reported"]
+    R.add(f"{TU}:to_subtree", prop="C06",
+          variants={"removals in a list": ts_setup("list"), "removals in a set": ts_setup("set"),
+                    "removals in a list, mapping into a list": ts_setup("list", "list"), "removals in a list, mapping into a dict": ts_setup("list", "dict")},
+          requires=[wf_clause(w) for w in WF] + [("removals-are-node-ids", ts_pre_removals)],
+          returns=ts_result, modifies=["out_mapping"], inlined_loops={f"{IMPL}:to_subtree_impl": DICT_LOOP},
           ensures=[(nm, ts_post(nm)) for nm in TS_POSTS],
           loops={0: dict(invariant=[("marks-so-far", ts_inv("marks-so-far"))])},
-          notes="the input tree is frozen (any store into it is a failed frame obligation); removals may repeat and come in any order")
-
+          notes="the input tree is frozen (any store into it is a failed frame obligation); removals may repeat and come in any order; "
+                "used modularly by cut_tree / CutByType / CutShortTipBranch (ghost outputs: mapping, its inverse, the removal closure)")
 
     # ------------------------------------------------------------------ get_subtree_impl (traverse client rule)
-    def gs_setup(S):
-        t = wf_tree(S)
-        r = S.int("start")
-        S.assume(z3.And(r.z >= 0, r.z < nof(t)))
-        G = Obj(GhostList, dict(at=SArr(z3.K(I, z3.IntVal(-1)), nof(t), "int", name="at")))  # ghost: at[x] = position of node x in `ids`
-        return dict(swc_like=t, n=r, out_mapping=None, G6=G)
+    def gs_setup(kind):
+        def f(S):
+            t = raw_tree(S)
+            r = S.int("start")
+            G = Obj(GhostList, dict(at=SArr(z3.K(I, z3.IntVal(-1)), nof(t), "int", name="at")))  # ghost: at[x] = position of node x in `ids`
+            out = None if kind == "none" else (PList([7, 8]) if kind == "list" else S.pdict("int", name="out_mapping"))
+            return dict(swc_like=t, n=r, out_mapping=out, G6=G)
 
-    def list_view(L):
-        if L.items is None:
-            return L.cols[0], zint(L.n)
-        a = z3.K(I, z3.IntVal(0))
-        for k, x in enumerate(L.items):
-            a = z3.Store(a, k, to_z3(x, "int"))
-        return a, z3.IntVal(len(L.items))
+        return f
+
+    def gs_start_in_range(E, v, o):
+        r = to_z3(v["n"], "int")
+        return z3.And(r >= 0, r < nof(v["swc_like"]))
 
     def gs_J(E, v, ENT, LEFT, ctx):
         """`ids` lists exactly the entered nodes, each once (ghost inverse at), the start node first and every other node after its parent"""
@@ -405,51 +546,429 @@ def register_subtree(R):
         E.assume(z3.ForAll([a], PPOS(a) == sel(at, sel(P, sel(A, a)))))
         return True
 
+    def gs_result(S, fr):
+        """shape of get_subtree_impl's result at call sites: (m, fresh columns of length m, source, names) with the ghost outputs
+        (new-to-old mapping, the descendant predicate Sub) attached to the column dict"""
+        t = fr.vars["swc_like"]
+        m = S.int("m")
+        S.assume(m.z >= 0)
+        nd = PDict({c: SArr.fresh(a.kind, m.z, name="sub_" + c) for c, a in all_cols(t).items()})
+        nd.ghost6 = dict(mapping=SArr.fresh("int", m.z, name="mapping"), Sub=z3.Function(fresh_name("Sub"), I, z3.BoolSort()))
+        return (m, nd, t.fields["source"], t.fields["names"])
+
+    def gs_ghost(E, ndata):
+        g = getattr(ndata, "ghost6", None)
+        if g is not None:
+            return g["mapping"], g["Sub"]
+        c = topo_call(E)
+        Sub = E.ghost.get("last-traverse-Sub")
+        if c is None or Sub is None:
+            return None
+        return c["__result__"][1], Sub
+
+    def gs_clause(E, which, tup, t, start, gh, out_mapping=None):
+        """clauses of `tup = constructor arguments of the subtree of t at start` (shared by get_subtree_impl and its wrappers)"""
+        if gh is None:
+            return False
+        mapping, Sub = gh
+        n_nodes, ndata, source, names = tup
+        n, m, root = nof(t), mapping.nz(), to_z3(start, "int")
+        P = col(t, "pid").arr
+        k, x, j = z3.Int(fresh_name("k")), z3.Int(fresh_name("x")), z3.Int(fresh_name("j"))
+        Rg = lambda q: z3.And(q >= 0, q < n)
+        if which == "descendants-are-the-start-node-and-every-node-whose-parent-is-a-descendant":
+            return z3.And(Sub(root), z3.ForAll([x], z3.Implies(Sub(x), z3.And(Rg(x), z3.Implies(x != root, z3.And(sel(P, x) >= 0, Sub(sel(P, x))))))),
+                          z3.ForAll([x], z3.Implies(z3.And(Rg(x), sel(P, x) >= 0, Sub(sel(P, x))), Sub(x))), z3.Implies(sel(P, root) >= 0, z3.Not(Sub(sel(P, root)))))
+        if which == "exactly-the-start-node-and-its-descendants-each-once":
+            return z3.And(to_z3(n_nodes, "int") == m,
+                          z3.ForAll([k], z3.Implies(z3.And(k >= 0, k < m), Sub(mapping.get(k).z))),
+                          z3.ForAll([k, j], z3.Implies(z3.And(k >= 0, k < m, j >= 0, j < m, k != j), mapping.get(k).z != mapping.get(j).z)),
+                          z3.ForAll([x], z3.Implies(Sub(x), z3.Exists([k], z3.And(k >= 0, k < m, mapping.get(k).z == x)))))
+        if which == "start-node-is-the-new-root-without-parent":
+            return z3.And(m > 0, mapping.get(0).z == root, ndata.items["pid"].get(0).z == -1)
+        if which == "parents-precede-children-and-the-parent-relation-is-kept":
+            q = ndata.items["pid"].get(k).z
+            return z3.And(ndata.items["pid"].nz() == m, z3.ForAll([k], z3.Implies(z3.And(k > 0, k < m), z3.And(q >= 0, q < k, mapping.get(q).z == sel(P, mapping.get(k).z)))))
+        if which == "survivors-keep-every-attribute-in-fresh-storage":
+            if set(ndata.items) != set(all_cols(t)):
+                return False
+            out = []
+            for cname, src in all_cols(t).items():
+                a = ndata.items[cname]
+                if a.uid in E.entry_uids:
+                    return False
+                if cname in ("id", "pid"):
+                    continue
+                out.append(z3.And(a.nz() == m, z3.ForAll([k], z3.Implies(z3.And(k >= 0, k < m), a.get(k).z == src.get(mapping.get(k).z).z))))
+            return z3.And(ndata.items["id"].nz() == m, z3.ForAll([k], z3.Implies(z3.And(k >= 0, k < m), ndata.items["id"].get(k).z == k)), *out)
+        if which == "mapping-reported":
+            if isinstance(out_mapping, PList) and out_mapping.items is not None:
+                return False
+            return mapping_reported(out_mapping, mapping)
+        raise KeyError(which)
+
     def gs_post(which):
         def f(E, v, o):
-            c = topo_call(E)
-            if c is None:
-                return False
-            (new_id, new_pid), mapping = c["__result__"]
-            n_nodes, ndata, source, names = v["result"]
-            t = o["swc_like"]
-            n, m, root = nof(t), mapping.nz(), to_z3(o["n"], "int")
-            P = col(t, "pid").arr
-            k, x, j = z3.Int(fresh_name("k")), z3.Int(fresh_name("x")), z3.Int(fresh_name("j"))
-            Sub = E.ghost.get("last-traverse-Sub")
-            if which == "exactly-the-start-node-and-its-descendants-each-once":
-                if Sub is None:
-                    return False
-                return z3.And(to_z3(n_nodes, "int") == m,
-                              z3.ForAll([k], z3.Implies(z3.And(k >= 0, k < m), Sub(mapping.get(k).z))),
-                              z3.ForAll([k, j], z3.Implies(z3.And(k >= 0, k < m, j >= 0, j < m, k != j), mapping.get(k).z != mapping.get(j).z)),
-                              z3.ForAll([x], z3.Implies(Sub(x), z3.Exists([k], z3.And(k >= 0, k < m, mapping.get(k).z == x)))))
-            if which == "start-node-is-the-new-root-without-parent":
-                return z3.And(m > 0, mapping.get(0).z == root, ndata.items["pid"].get(0).z == -1)
-            if which == "parents-precede-children-and-the-parent-relation-is-kept":
-                q = ndata.items["pid"].get(k).z
-                return z3.ForAll([k], z3.Implies(z3.And(k > 0, k < m), z3.And(q >= 0, q < k, mapping.get(q).z == sel(P, mapping.get(k).z))))
-            if which == "survivors-keep-every-attribute-in-fresh-storage":
-                out = []
-                for cname, src in all_cols(t).items():
-                    if cname in ("id", "pid"):
-                        continue
-                    a = ndata.items[cname]
-                    if a.uid in E.entry_uids:
-                        return False
-                    out.append(z3.And(a.nz() == m, z3.ForAll([k], z3.Implies(z3.And(k >= 0, k < m), a.get(k).z == src.get(mapping.get(k).z).z))))
-                return z3.And(ndata.items["id"].nz() == m, z3.ForAll([k], z3.Implies(z3.And(k >= 0, k < m), ndata.items["id"].get(k).z == k)), *out)
-            raise KeyError(which)
+            return gs_clause(E, which, v["result"], o["swc_like"], o["n"], gs_ghost(E, v["result"][1]), v["out_mapping"])
 
         return f
 
-    GS_POSTS = ["exactly-the-start-node-and-its-descendants-each-once", "start-node-is-the-new-root-without-parent",
-                "parents-precede-children-and-the-parent-relation-is-kept", "survivors-keep-every-attribute-in-fresh-storage"]
-    R.add(f"{IMPL}:get_subtree_impl", prop="C06", setup=gs_setup,
+    GS_POSTS = ["descendants-are-the-start-node-and-every-node-whose-parent-is-a-descendant", "exactly-the-start-node-and-its-descendants-each-once",
+                "start-node-is-the-new-root-without-parent", "parents-precede-children-and-the-parent-relation-is-kept",
+                "survivors-keep-every-attribute-in-fresh-storage", "mapping-reported"]
+    R.add(f"{IMPL}:get_subtree_impl", prop="C06",
+          variants={"no-mapping-requested": gs_setup("none"), "mapping-into-a-list": gs_setup("list"), "mapping-into-a-dict": gs_setup("dict")},
+          requires=[wf_clause(w) for w in WF] + [("start-node-in-range", gs_start_in_range)],
+          returns=gs_result, modifies=["out_mapping"], inlined_loops={f"{IMPL}:to_subtree_impl": DICT_LOOP},
           ensures=[(nm, gs_post(nm)) for nm in GS_POSTS],
           options=dict(traverse_rule=Rule(gs_J, modifies=[("ids", "int"), "G6"], enter_kind="oref", ghost_enter=gs_ghost_enter),
                        asserts_after={"sub_ids": [("parent-entry-choice-function", gs_define_ppos)]}),
-          notes="mapping = the pre-order list of the subtree; the input is frozen")
+          notes="mapping = the pre-order list of the subtree; the input is frozen; used modularly by get_subtree / Tree.Node.subtree "
+                "(ghost outputs: mapping, the descendant predicate)")
+
+    # ------------------------------------------------------------------ get_subtree / Tree.Node.subtree: thin wrappers over get_subtree_impl
+    from contracts.C09 import node_obj
+
+    TREE = "swcgeom/core/tree.py"
+
+    def gw_setup(form, kind):
+        def f(S):
+            t = raw_tree(S)
+            out = None if kind == "none" else (S.plist("int", name="out_mapping") if kind == "list" else S.pdict("int", name="out_mapping"))
+            if form == "function":
+                return dict(swc_like=t, n=S.int("start"), out_mapping=out)
+            return dict(self=node_obj(S, t), out_mapping=out)
+
+        return f
+
+    gw_tree = {"function": lambda v: v["swc_like"], "method": lambda v: v["self"].fields["attach"]}
+    # the method passes `self.id` (the id column at the handle's index; ids are positions on a well-formed tree)
+    gw_start = {"function": lambda v: to_z3(v["n"], "int"), "method": lambda v: to_z3(v["self"].fields["idx"], "int")}
+
+    def gw_pre(form):
+        def f(E, v, o):
+            r = gw_start[form](v)
+            return z3.And(r >= 0, r < nof(gw_tree[form](v)))
+
+        return f
+
+    def gw_post(form, which):
+        def f(E, v, o):
+            res, t, start = v["result"], gw_tree[form](o), gw_start[form](o)
+            calls = [kw for nm, kw in E.call_log if nm == "get_subtree_impl"]
+            if len(calls) != 1 or not isinstance(res, Obj):
+                return False
+            c = calls[0]
+            m_impl, nd_impl, src_impl, names_impl = c["__result__"]
+            if which == "delegates-to-the-impl-with-this-tree-this-start-node-and-the-callers-mapping-object":
+                return z3.And(z3.BoolVal(c["swc_like"] is gw_tree[form](v) and c["out_mapping"] is v["out_mapping"]), to_z3(c["n"], "int") == start)
+            rc = all_cols(res)
+            if which == "tree-built-from-exactly-the-impls-tuple":
+                if set(rc) != set(nd_impl.items) or res.fields["source"] is not src_impl or res.fields["names"] is not names_impl:
+                    return False
+                k = z3.Int(fresh_name("k"))
+                m = to_z3(m_impl, "int")
+                return z3.And(*[z3.And(rc[cn].nz() == m, z3.ForAll([k], z3.Implies(z3.And(k >= 0, k < m), rc[cn].get(k).z == nd_impl.items[cn].get(k).z))) for cn in rc])
+            tup = (rc["id"].nz(), res.fields["ndata"], res.fields["source"], res.fields["names"])
+            if which == "result-shares-no-storage-with-the-input":
+                return all(a.uid not in E.entry_uids for a in rc.values()) and res.uid not in E.entry_uids and res.fields["ndata"].uid not in E.entry_uids
+            return gs_clause(E, which, tup, t, Sym(start, "int"), gs_ghost(E, nd_impl), v["out_mapping"])
+
+        return f
+
+    GW_POSTS = ["delegates-to-the-impl-with-this-tree-this-start-node-and-the-callers-mapping-object", "tree-built-from-exactly-the-impls-tuple"] + GS_POSTS + ["result-shares-no-storage-with-the-input"]
+    for form, key, tn in (("function", f"{TU}:get_subtree", "swc_like"), ("method", f"{TREE}:Tree.Node.subtree", None)):
+        getter = (lambda v: v["swc_like"]) if form == "function" else (lambda v: v["self"].fields["attach"])
+        R.add(key, prop="C06",
+              variants={"no-mapping-requested": gw_setup(form, "none"), "mapping-into-a-list": gw_setup(form, "list"), "mapping-into-a-dict": gw_setup(form, "dict")},
+              requires=[wf_clause(w, getter) for w in WF] + [("start-node-in-range", gw_pre(form))],
+              ensures=[(nm, gw_post(form, nm)) for nm in GW_POSTS],
+              notes="thin wrapper: get_subtree_impl through its proved contract, then the Tree constructor (interpreted from source)")
+
+    from pyvc.engine import Unsupported
+
+    _SUBTREE_KIT.update(nof=nof, col=col, sel=sel, list_view=list_view, raw_tree=raw_tree, wf_clause=wf_clause, WF=WF, sub_ghost=sub_ghost,
+                        subtree_clause=subtree_clause, rem_member=rem_member, gs_clause=gs_clause, gs_ghost=gs_ghost, GS_POSTS=GS_POSTS, all_cols=all_cols, wf_tree=wf_tree, topo_call=topo_call, Unsupported=Unsupported)
+
+
+# =========================================================================== cut_tree (enter form / leave form / neither)
+def register_cut_tree(R):
+    from contracts.C04 import depth
+    from pyvc.traverse_rule import Rule
+    from pyvc.values import Obj, fresh
+
+    K = _SUBTREE_KIT
+    nof, col, sel, list_view = K["nof"], K["col"], K["sel"], K["list_view"]
+    I, B = z3.IntSort(), z3.BoolSort()
+    REM = local_collection_name(f"{TU}:cut_tree", "list")  # cut_tree's local list of removals (whatever it is called)
+    # the user's enter callback is an ARBITRARY function of (node, incoming value) -> (value, removal flag); values are opaque
+    # references (0 = None)
+    UE_VAL = z3.Function("user_enter_value", I, I, I)
+    UE_FLAG = z3.Function("user_enter_removal", I, I, B)
+
+    def handle_index(E, node, t, who):
+        ok = isinstance(node, Obj) and node.fields.get("attach") is t
+        E.prove(f"cut_tree/call:{who}/pre/callback-receives-a-handle-on-the-input-tree", ok, "precondition")
+        return to_z3(node.fields["idx"], "int")
+
+    def setup(mode):
+        def f(S):
+            t = K["raw_tree"](S)
+            n = nof(t)
+            G = Obj(GhostList, dict(at=SArr(z3.K(I, z3.IntVal(-1)), n, "int", name="at"),                       # position of a node in `removals`
+                                    flag=SArr(z3.K(I, z3.BoolVal(False)), n, "bool", name="flag"),               # leave form: flag the callback returned at x
+                                    val=SArr(z3.K(I, z3.IntVal(0)), n, "oref", name="val"),                      # leave form: value it returned at x
+                                    seen=SArr(z3.K(I, z3.K(I, z3.IntVal(0))), n, "int", name="seen"),            # leave form: the child values it was handed at x
+                                    seenlen=SArr(z3.K(I, z3.IntVal(-1)), n, "int", name="seenlen")))
+
+            def user_enter(E, args, kwargs):
+                if len(args) != 2 or kwargs:
+                    raise K["Unsupported"]("enter callback called with an unexpected signature")
+                x = handle_index(E, args[0], t, "enter")
+                inc = to_z3(args[1], "oref")
+                return (Sym(UE_VAL(x, inc), "oref"), Sym(UE_FLAG(x, inc), "bool"))
+
+            def user_leave(E, args, kwargs):
+                if len(args) != 2 or kwargs:
+                    raise K["Unsupported"]("leave callback called with an unexpected signature")
+                x = handle_index(E, args[0], t, "leave")
+                A, ln = list_view(args[1])
+                rv, rf = fresh("oref", "leave_value"), fresh("bool", "leave_removal")
+                g = G.fields
+                g["flag"].arr, g["val"].arr = z3.Store(g["flag"].arr, x, rf.z), z3.Store(g["val"].arr, x, rv.z)
+                g["seen"].arr, g["seenlen"].arr = z3.Store(g["seen"].arr, x, A), z3.Store(g["seenlen"].arr, x, ln)
+                return (rv, rf)
+
+            return dict(tree=t, enter=S.callback("enter", user_enter) if mode == "enter" else None,
+                        leave=S.callback("leave", user_leave) if mode == "leave" else None, G6=G, __ghost__=dict(mode=mode))
+
+        return f
+
+    def define_designated(E, old):
+        """enter form, ghost definition by recursion over the (well-founded) parent relation: VALc(x) = value the traversal carries
+        at x, RMc(x) = x is designated for removal (the callback says so at x, or an ancestor is designated: then the callback is
+        NOT consulted at x and the ancestor's value is carried on)"""
+        if E.spec_extra.get("mode") != "enter":
+            return
+        t = old["tree"]
+        P, n = col(t, "pid").arr, nof(t)
+        RMc, VALc = z3.Function(fresh_name("RMc"), I, B), z3.Function(fresh_name("VALc"), I, I)
+        E.spec_extra["RMc"], E.spec_extra["VALc"] = RMc, VALc
+        x = z3.Int(fresh_name("x"))
+        px = sel(P, x)
+        E.assume(z3.ForAll([x], z3.Implies(z3.And(x >= 0, x < n), z3.If(px < 0,
+                 z3.And(RMc(x) == UE_FLAG(x, 0), VALc(x) == UE_VAL(x, 0)),
+                 z3.And(RMc(x) == z3.Or(RMc(px), UE_FLAG(x, VALc(px))), VALc(x) == z3.If(RMc(px), VALc(px), UE_VAL(x, VALc(px))))))))
+        E.assumptions.add("ghost definition (well-founded recursion over the parent relation): RMc / VALc = removal designation and carried value of cut_tree's enter form")
+
+    def flagged(E, v):
+        """x -> `the callback designates x itself`"""
+        mode = E.spec_extra["mode"]
+        if mode == "enter":
+            RMc = E.spec_extra["RMc"]
+            return lambda x: RMc(x)
+        if mode == "leave":
+            flag = v["G6"].fields["flag"].arr
+            return lambda x: sel(flag, x)
+        return lambda x: z3.BoolVal(False)
+
+    def J(E, v, ENT, LEFT, ctx):
+        """`removals` lists exactly the nodes designated so far, each once (ghost inverse `at`)"""
+        mode = E.spec_extra["mode"]
+        A, ln = list_view(v[REM])
+        g = v["G6"].fields
+        at = g["at"].arr
+        a, x, k = z3.Int(fresh_name("a")), z3.Int(fresh_name("x")), z3.Int(fresh_name("k"))
+        done = ENT if mode == "enter" else LEFT
+        fl = flagged(E, v)
+        member = lambda t_: z3.And(sel(done, t_), fl(t_))
+        inl = lambda t_: z3.And(t_ >= 0, t_ < ln)
+        out = [ln >= 0,
+               z3.ForAll([a], z3.Implies(inl(a), z3.And(ctx.R(sel(A, a)), member(sel(A, a)), sel(at, sel(A, a)) == a))),
+               z3.ForAll([x], z3.Implies(z3.And(ctx.R(x), member(x)), z3.And(inl(sel(at, x)), sel(A, sel(at, x)) == x)))]
+        if mode == "leave":  # what the user callback was handed at every node left so far: its children's values in order
+            out.append(z3.ForAll([x], z3.Implies(z3.And(ctx.R(x), sel(LEFT, x)), sel(g["seenlen"].arr, x) == ctx.nkids(x))))
+            out.append(z3.ForAll([x, k], z3.Implies(z3.And(ctx.R(x), sel(LEFT, x), 0 <= k, k < ctx.nkids(x)), sel(sel(g["seen"].arr, x), k) == sel(g["val"].arr, ctx.kid(x, k)))))
+        return z3.And(*out)
+
+    def Qe(E, v, x, val, ctx):
+        if not (isinstance(val, tuple) and len(val) == 2):
+            return False
+        return z3.And(to_z3(val[0], "oref") == E.spec_extra["VALc"](x), to_z3(E.truth(val[1]), "bool") == E.spec_extra["RMc"](x))
+
+    def Ql(E, v, x, val, ctx):
+        return to_z3(val, "oref") == sel(v["G6"].fields["val"].arr, x)
+
+    def ghost_step(E, v, x, ctx):
+        A, ln = list_view(v[REM])
+        G = v["G6"]
+        G.fields["at"].arr = z3.Store(G.fields["at"].arr, x, ln - 1)
+
+    def result_ghost(E, v, o):
+        res = v["result"]
+        if E.spec_extra["mode"] == "neither":  # nothing removed: the identity mapping
+            k = z3.Int(fresh_name("k"))
+            n = nof(o["tree"])
+            ident = SArr(z3.Lambda([k], k), n, "int", name="identity")
+            return (ident, (lambda q: q), (lambda q: q), (lambda q: z3.BoolVal(False)))
+        return getattr(res, "ghost6", None) and K["sub_ghost"](E, res)
+
+    def post(which):
+        def f(E, v, o):
+            res, t = v["result"], o["tree"]
+            gh = result_ghost(E, v, o)
+            if not gh:
+                return False
+            if which == "callback-handed-its-childrens-values-in-order":
+                if E.spec_extra["mode"] != "leave":
+                    return True
+                g = v["G6"].fields
+                x, k = z3.Int(fresh_name("x")), z3.Int(fresh_name("k"))
+                P, n = col(t, "pid").arr, nof(t)
+                ctx = E.ghost["last-traverse-ctx"]  # children of x in table order: kid(x, 0..nkids(x)-1)
+                return z3.ForAll([x], z3.Implies(z3.And(x >= 0, x < n), z3.And(sel(g["seenlen"].arr, x) == ctx.nkids(x),
+                                 z3.ForAll([k], z3.Implies(z3.And(0 <= k, k < ctx.nkids(x)), sel(sel(g["seen"].arr, x), k) == sel(g["val"].arr, ctx.kid(x, k)))))))
+            return K["subtree_clause"](E, which, res, t, gh, seed=flagged(E, v))
+
+        return f
+
+    def induction_hint(E, v):
+        """enter form: the closure to_subtree computes adds nothing to the designated set (it is already closed downwards).
+        Tree induction for P(x) := Rm(x) == RMc(x); base and step are proved, the schema is the Lean lemma `tree_induction`."""
+        if E.spec_extra.get("mode") != "enter":
+            return
+        res = v.get("result") if "result" in v else None
+        calls = [kw for nm, kw in E.call_log if nm == "to_subtree"]
+        if len(calls) != 1:
+            return
+        res = calls[0]["__result__"]
+        t = calls[0]["swc_like"]
+        mapping, kappa, rho, Rm = K["sub_ghost"](E, res)
+        RMc = E.spec_extra["RMc"]
+        P, n = col(t, "pid").arr, nof(t)
+        A, ln = list_view(calls[0]["removals"])
+        x, j = z3.Int(fresh_name("x")), z3.Int(fresh_name("j"))
+        Rg = lambda q: z3.And(q >= 0, q < n)
+        E.prove("cut_tree/step/listed-iff-designated", z3.ForAll([x], z3.Implies(Rg(x), z3.Exists([j], z3.And(j >= 0, j < ln, sel(A, j) == x)) == RMc(x))), "annotation")
+        base = Rm(0) == RMc(0)
+        step = z3.ForAll([x], z3.Implies(z3.And(Rg(x), x != 0, Rm(sel(P, x)) == RMc(sel(P, x))), Rm(x) == RMc(x)))
+        E.prove("cut_tree/induction-premise/closure-agrees-at-the-root", base, "lemma")
+        E.prove("cut_tree/induction-premise/closure-agrees-below-an-agreeing-parent", step, "lemma")
+        E.assume(z3.Implies(z3.And(base, step), z3.ForAll([x], z3.Implies(Rg(x), Rm(x) == RMc(x)))))
+        E.assumptions.add("assumed-lemma:tree_induction (depth witness) instantiated for P(x) = (closure of the listed removals at x == designation of cut_tree's enter form at x)")
+
+    CT_POSTS = ["removal-closure-is-removed-or-below-a-removed-node", "survivors-are-exactly-the-nodes-outside-the-closure-in-order", "survivors-keep-every-attribute",
+                "ids-are-positions-and-parent-relation-kept", "result-shares-no-storage-with-the-input"]
+    LABEL = {"removal-closure-is-removed-or-below-a-removed-node": "removed-iff-designated-by-the-callback-or-below-a-removed-node"}
+    R.add(f"{TU}:cut_tree", prop="C06",
+          variants={"enter callback": setup("enter"), "leave callback": setup("leave"), "neither (plain copy)": setup("neither")},
+          requires=[K["wf_clause"](w, "tree") for w in K["WF"]],
+          ghost_entry=define_designated,
+          ensures=[(LABEL.get(nm, nm), post(nm)) for nm in CT_POSTS] + [("leave-callback-handed-its-childrens-values-in-order", post("callback-handed-its-childrens-values-in-order"))],
+          options=dict(traverse_rule=Rule(J, Qe=Qe, Ql=Ql, modifies=[(REM, "int"), "G6"], enter_kind=lambda E: (fresh("oref", "pv"), fresh("bool", "pr")), leave_kind="oref",
+                                          ghost_enter=ghost_step, ghost_leave=ghost_step),
+                       hints={"post/removed-iff-designated-by-the-callback-or-below-a-removed-node": induction_hint}),
+          notes="enter form: the user callback is an uninterpreted function of (node, incoming value); leave form: arbitrary results recorded in ghost "
+                "observation arrays; to_subtree is used through its proved contract; the input tree is frozen")
+
+    # ------------------------------------------------------------------ the nested closures on their own (their clauses are POSTCONDITIONS here)
+    from contracts.C09 import node_obj
+
+    def cb_setup(form, with_parent):
+        def f(S):
+            t = K["raw_tree"](S)
+            n = node_obj(S, t)
+            rem = S.plist("int", name="removals")
+            log = []
+
+            def user(E, args, kwargs):
+                if form == "enter":
+                    x, inc = to_z3(args[0].fields["idx"], "int"), to_z3(args[1], "oref")
+                    r = (Sym(UE_VAL(x, inc), "oref"), Sym(UE_FLAG(x, inc), "bool"))
+                else:
+                    r = (fresh("oref", "leave_value"), fresh("bool", "leave_removal"))
+                log.append((list(args), dict(kwargs), r))
+                return r
+
+            d = dict(n=n, __ghost__=dict(log=log))
+            if form == "enter":
+                d["parent"] = (fresh("oref", "pv"), S.bool("pr")) if with_parent else None
+                d["__closure__"] = {REM: rem, "enter": S.callback("enter", user)}
+            else:
+                ch = S.plist("oref", name="children")
+                ch.frozen = True
+                d["children"] = ch
+                d["__closure__"] = {REM: rem, "leave": S.callback("leave", user)}
+            d[REM] = rem  # visible to the clauses (old(removals) = the list at entry)
+            return d
+
+        return f
+
+    def cb_in_range(E, v, o):
+        i = to_z3(v["n"].fields["idx"], "int")
+        return z3.And(i >= 0, i < nof(v["n"].fields["attach"]))
+
+    def cb_flag_and_id(E, v, o, form):
+        res = v["result"]
+        node = o["n"]
+        me = sel(col(node.fields["attach"], "id").arr, to_z3(node.fields["idx"], "int"))
+        log = E.spec_extra["log"]
+        if form == "enter":
+            if not (isinstance(res, tuple) and len(res) == 2):
+                return None, me, log
+            return to_z3(E.truth(res[1]), "bool"), me, log
+        return (to_z3(E.truth(log[0][2][1]), "bool") if len(log) == 1 else None), me, log
+
+    def cb_post(form, which):
+        def f(E, v, o):
+            res = v["result"]
+            flag, me, log = cb_flag_and_id(E, v, o, form)
+            if flag is None:
+                return False
+            if which == "listed":  # the node's id is appended to `removals` iff the returned / reported flag is set; nothing else changes
+                A1, l1 = list_view(v[REM])
+                A0, l0 = list_view(o[REM])
+                j = z3.Int(fresh_name("j"))
+                return z3.And(v[REM].uid == o[REM].uid, l1 == l0 + z3.If(flag, 1, 0), z3.Implies(flag, sel(A1, l0) == me),
+                              z3.ForAll([j], z3.Implies(z3.And(j >= 0, j < l0), sel(A1, j) == sel(A0, j))))
+            node = o["n"]
+            if form == "enter":
+                par = o["parent"]
+                below = z3.BoolVal(False) if par is None else to_z3(par[1], "bool")
+                if len(log) == 0:  # the callback was not consulted: only right below a removed parent, whose pair is passed on
+                    if par is None:
+                        return False
+                    return z3.And(below, to_z3(res[0], "oref") == to_z3(par[0], "oref"), flag)
+                if len(log) != 1:
+                    return False
+                args, kwargs, r = log[0]
+                ok = len(args) == 2 and not kwargs and args[0] is v["n"]
+                inc_ok = (args[1] is None) if par is None else (args[1] is not None and to_z3(args[1], "oref") == to_z3(par[0], "oref"))
+                return z3.And(z3.Not(below), z3.BoolVal(ok) if isinstance(ok, bool) else ok, z3.BoolVal(inc_ok) if isinstance(inc_ok, bool) else inc_ok,
+                              to_z3(res[0], "oref") == r[0].z, flag == r[1].z)
+            if len(log) != 1:
+                return False
+            args, kwargs, r = log[0]
+            if not (len(args) == 2 and not kwargs and args[0] is v["n"]) or isinstance(res, tuple):
+                return False
+            (A1, l1), (A0, l0) = list_view(args[1]), list_view(o["children"])  # the child values in order (the very list or an equal one)
+            j = z3.Int(fresh_name("j"))
+            return z3.And(l1 == l0, z3.ForAll([j], z3.Implies(z3.And(j >= 0, j < l0), sel(A1, j) == sel(A0, j))), to_z3(res, "oref") == r[0].z)
+
+        return f
+
+    R.add(f"{TU}:cut_tree.<locals>._enter", prop="C06",
+          variants={"start node (no parent pair)": cb_setup("enter", False), "below a parent": cb_setup("enter", True)},
+          requires=[("handle-in-range", cb_in_range)],
+          ensures=[("below-a-removed-parent-its-pair-is-passed-on-unconsulted-else-the-callback-decides-on-the-parents-value", cb_post("enter", "value")),
+                   ("node-id-appended-to-removals-iff-the-returned-flag-is-set", cb_post("enter", "listed"))],
+          notes="the wrapper cut_tree hands to Tree.traverse in the enter form; `enter` is an uninterpreted function of (node, incoming value)")
+    R.add(f"{TU}:cut_tree.<locals>._leave", prop="C06",
+          setup=cb_setup("leave", False),
+          requires=[("handle-in-range", cb_in_range)],
+          ensures=[("callback-consulted-once-with-this-node-and-the-child-values-in-order-and-its-value-returned", cb_post("leave", "value")),
+                   ("node-id-appended-to-removals-iff-the-callback-flags-it", cb_post("leave", "listed"))],
+          notes="the wrapper cut_tree hands to Tree.traverse in the leave form; `leave` returns arbitrary (value, flag) pairs")
 
 
 _reg6b = register
@@ -458,6 +977,7 @@ _reg6b = register
 def register(R):  # noqa: F811
     _reg6b(R)
     register_subtree(R)
+    register_cut_tree(R)
 
 
 # =========================================================================== CutByFurcationOrder._enter (the rule the order cut designates)
@@ -511,3 +1031,852 @@ _reg6c = register
 def register(R):  # noqa: F811
     _reg6c(R)
     register_order_cut(R)
+
+
+# =========================================================================== CutByType / CutAxonTree / CutDendriteTree
+def register_cut_by_type(R):
+    from pyvc.traverse_rule import Rule
+    from pyvc.values import Obj, fresh
+
+    K = _SUBTREE_KIT
+    nof, col, sel = K["nof"], K["col"], K["sel"]
+    I, B = z3.IntSort(), z3.BoolSort()
+    TT = "swcgeom/transforms/tree.py"
+    REM = local_collection_name(f"{TT}:CutByType.__call__", "set")  # the local set of removals (whatever it is called)
+
+    def setup(S):
+        from swcgeom.transforms.tree import CutByType
+
+        t = K["raw_tree"](S)
+        G = Obj(GhostList, dict(keep=SArr(z3.K(I, z3.BoolVal(False)), nof(t), "bool", name="keep")))  # ghost: what `leave` returned at x
+        return dict(self=S.obj(CutByType, type=S.int("wanted_type")), x=t, __ghost__=dict(G6=G))
+
+    G6 = lambda E: E.spec_extra["G6"]
+
+    def J(E, v, ENT, LEFT, ctx):
+        """`removals` holds the nodes of another type that are not (yet) known to have a kept child; keep[x] (the value `leave`
+        returned at x) says: x is of the type or one of its children is kept"""
+        rem, t = v[REM], v["x"]
+        if not isinstance(rem, SymSet):
+            return False
+        ty = to_z3(v["self"].fields["type"], "int")
+        keep = G6(E).fields["keep"].arr
+        typ = col(t, "type").arr
+        x, k = z3.Int(fresh_name("x")), z3.Int(fresh_name("k"))
+        return z3.And(
+            z3.ForAll([x], z3.Implies(rem.has(x), ctx.R(x))),
+            z3.ForAll([x], z3.Implies(ctx.R(x), rem.has(x) == z3.If(sel(LEFT, x), z3.Not(sel(keep, x)), sel(typ, x) != ty))),
+            z3.ForAll([x], z3.Implies(z3.And(ctx.R(x), sel(LEFT, x)),
+                                      sel(keep, x) == z3.Or(sel(typ, x) == ty, z3.Exists([k], z3.And(0 <= k, k < ctx.nkids(x), sel(keep, ctx.kid(x, k))))))))
+
+    def Ql(E, v, x, val, ctx):
+        return to_z3(E.truth(val), "bool") == sel(G6(E).fields["keep"].arr, x)
+
+    def ghost_leave(E, v, x, ctx):
+        g = G6(E).fields["keep"]
+        g.arr = z3.Store(g.arr, x, to_z3(E.truth(ctx.ret), "bool"))
+
+    def result_of(E):
+        calls = [kw for nm, kw in E.call_log if nm == "to_subtree"]
+        return calls[0] if len(calls) == 1 else None
+
+    def post(which):
+        def f(E, v, o):
+            res, t = v["result"], o["x"]
+            c = result_of(E)
+            if c is None or res is not c["__result__"] or c["swc_like"] is not v["x"] or c["out_mapping"] is not None:
+                return False
+            gh = K["sub_ghost"](E, res)
+            mapping, kappa, rho, Rm = gh
+            if which == "kept-iff-of-the-type-or-parent-of-a-kept-node":
+                ty = to_z3(o["self"].fields["type"], "int")
+                typ, P, n = col(t, "type").arr, col(t, "pid").arr, nof(t)
+                x, c_ = z3.Int(fresh_name("x")), z3.Int(fresh_name("c"))
+                kept = lambda q: z3.Not(Rm(q))
+                return z3.ForAll([x], z3.Implies(z3.And(x >= 0, x < n), kept(x) == z3.Or(sel(typ, x) == ty, z3.Exists([c_], z3.And(c_ >= 0, c_ < n, sel(P, c_) == x, kept(c_))))))
+            return K["subtree_clause"](E, which, res, t, gh)
+
+        return f
+
+    def induction_hint(E, v):
+        """the closure to_subtree computes adds nothing: the final `removals` is closed downwards, because a kept node keeps its parent.
+        Tree induction for P(x) := Rm(x) == not keep[x]; base and step are proved, the schema is the Lean lemma `tree_induction`."""
+        c = result_of(E)
+        if c is None:
+            return
+        t = c["swc_like"]
+        mapping, kappa, rho, Rm = K["sub_ghost"](E, c["__result__"])
+        keep = G6(E).fields["keep"].arr
+        ctx = E.ghost["last-traverse-ctx"]
+        P, n = col(t, "pid").arr, nof(t)
+        x = z3.Int(fresh_name("x"))
+        Rg = lambda q: z3.And(q >= 0, q < n)
+        E.prove("CutByType.__call__/step/a-kept-node-keeps-its-parent", z3.ForAll([x], z3.Implies(z3.And(Rg(x), x != 0, sel(keep, x)), sel(keep, sel(P, x)))), "annotation")
+        base = Rm(0) == z3.Not(sel(keep, 0))
+        step = z3.ForAll([x], z3.Implies(z3.And(Rg(x), x != 0, Rm(sel(P, x)) == z3.Not(sel(keep, sel(P, x)))), Rm(x) == z3.Not(sel(keep, x))))
+        E.prove("CutByType.__call__/induction-premise/closure-agrees-at-the-root", base, "lemma")
+        E.prove("CutByType.__call__/induction-premise/closure-agrees-below-an-agreeing-parent", step, "lemma")
+        E.assume(z3.Implies(z3.And(base, step), z3.ForAll([x], z3.Implies(Rg(x), Rm(x) == z3.Not(sel(keep, x))))))
+        E.assumptions.add("assumed-lemma:tree_induction (depth witness) instantiated for P(x) = (closure of CutByType's final removals at x == not keep[x])")
+
+    POSTS = ["kept-iff-of-the-type-or-parent-of-a-kept-node", "survivors-are-exactly-the-nodes-outside-the-closure-in-order", "survivors-keep-every-attribute",
+             "ids-are-positions-and-parent-relation-kept", "result-shares-no-storage-with-the-input"]
+    R.add(f"{TT}:CutByType.__call__", prop="C06", setup=setup,
+          requires=[K["wf_clause"](w, "x") for w in K["WF"]],
+          ensures=[(nm, post(nm)) for nm in POSTS],
+          options=dict(traverse_rule=Rule(J, Ql=Ql, modifies=[REM, G6], leave_kind="bool", ghost_leave=ghost_leave),
+                       hints={"post/kept-iff-of-the-type-or-parent-of-a-kept-node": induction_hint}),
+          notes="kept = the nodes of the type and all their ancestors (the unique fixpoint of `of the type, or parent of a kept node` on a finite tree); "
+                "`removals` is a Python set of ids; to_subtree through its proved contract")
+
+    # ---- the nested leave callback on its own (its clauses are POSTCONDITIONS here)
+    from contracts.C09 import node_obj
+
+    def lv_setup(S):
+        t = K["raw_tree"](S)
+        rem = SymSet(z3.Const(fresh_name("removals_mem"), z3.ArraySort(I, B)), "removals")
+        kc = S.plist("bool", name="keep_children")
+        kc.frozen = True
+        return {"n": node_obj(S, t), "keep_children": kc, REM: rem, "__closure__": {REM: rem}}
+
+    def lv_in_range(E, v, o):
+        i = to_z3(v["n"].fields["idx"], "int")
+        return z3.And(i >= 0, i < nof(v["n"].fields["attach"]))
+
+    def lv_post(which):
+        def f(E, v, o):
+            node = o["n"]
+            me = sel(col(node.fields["attach"], "id").arr, to_z3(node.fields["idx"], "int"))
+            mem0, mem1 = o[REM].mem, v[REM].mem
+            A, ln = K["list_view"](o["keep_children"])
+            k, q = z3.Int(fresh_name("k")), z3.Int(fresh_name("q"))
+            some_child_kept = z3.Exists([k], z3.And(k >= 0, k < ln, sel(A, k)))
+            if which == "set":
+                return z3.And(v[REM].uid == o[REM].uid, sel(mem1, me) == z3.And(sel(mem0, me), z3.Not(some_child_kept)),
+                              z3.ForAll([q], z3.Implies(q != me, sel(mem1, q) == sel(mem0, q))))
+            return to_z3(E.truth(v["result"]), "bool") == z3.Not(sel(mem1, me))
+
+        return f
+
+    R.add(f"{TT}:CutByType.__call__.<locals>.leave", prop="C06", setup=lv_setup,
+          requires=[("handle-in-range", lv_in_range)],
+          ensures=[("node-leaves-the-removal-set-iff-some-child-is-kept-and-nothing-else-changes", lv_post("set")),
+                   ("returns-whether-the-node-is-kept", lv_post("ret"))],
+          notes="the callback CutByType hands to Tree.traverse; `removals` is a Python set of ids")
+
+    # ---- which type: CutAxonTree / CutDendriteTree constructors
+    def init_setup(cls_name, given):
+        def f(S):
+            import swcgeom.transforms.tree as m
+            from swcgeom.core.swc_utils import SWCTypes
+
+            ty = SWCTypes(*[S.int(f"ty_{f_}") for f_ in SWCTypes._fields]) if given else None
+            return dict(self=S.obj(getattr(m, cls_name)), types=ty)
+
+        return f
+
+    def init_post(field):
+        def f(E, v, o):
+            from swcgeom.core.swc_utils import get_types
+
+            want = getattr(o["types"] if o["types"] is not None else get_types(), field)
+            got = v["self"].fields.get("type")
+            return got is not None and to_z3(got, "int") == to_z3(want, "int")
+
+        return f
+
+    for cls_name, field in (("CutAxonTree", "axon"), ("CutDendriteTree", "basal_dendrite")):
+        R.add(f"{TT}:{cls_name}.__init__", prop="C06",
+              variants={"default SWC types": init_setup(cls_name, False), "types given": init_setup(cls_name, True)},
+              ensures=[(f"cuts-by-the-{field.replace('_', '-')}-type-of-the-type-table-in-force", init_post(field))],
+              notes="the tree operation itself is CutByType.__call__ (inherited)")
+
+
+_reg6d = register
+
+
+def register(R):  # noqa: F811
+    _reg6d(R)
+    register_cut_by_type(R)
+
+
+# =========================================================================== CutByFurcationOrder.__call__ (= cut_tree with the level rule)
+def register_order_call(R):
+    from pyvc.traverse_rule import Rule
+    from pyvc.values import Obj, fresh
+
+    K = _SUBTREE_KIT
+    nof, col, sel, list_view = K["nof"], K["col"], K["sel"], K["list_view"]
+    I, B = z3.IntSort(), z3.BoolSort()
+    TT = "swcgeom/transforms/tree.py"
+    REM = local_collection_name(f"{TU}:cut_tree", "list")  # the local list of the inlined cut_tree
+
+    def setup(S):
+        from swcgeom.transforms.tree import CutByFurcationOrder
+
+        t = K["raw_tree"](S)
+        G = Obj(GhostList, dict(at=SArr(z3.K(I, z3.IntVal(-1)), nof(t), "int", name="at")))  # position of a node in cut_tree's `removals`
+        return dict(self=S.obj(CutByFurcationOrder, max_furcation_order=S.int("kmax")), x=t, __ghost__=dict(G6=G))
+
+    G6 = lambda E: E.spec_extra["G6"]
+
+    def ghosts(E, ctx):
+        """ghost definitions by recursion over the (well-founded) parent relation, made once per path when the traversal starts:
+        LVL(x)  = number of furcation nodes on the way from the root's children down to x (the level the property speaks of),
+        CAR(x)  = the level the traversal CARRIES at x: cut_tree stops consulting the callback below a removed node and passes the
+                  removed ancestor's level on.   `x is a furcation` = more than one child (nkids of the traversal's child enumeration)."""
+        if "order-ghosts" not in E.spec_extra:
+            t = E.top_old["x"]
+            P, n = col(t, "pid").arr, nof(t)
+            kmax = to_z3(E.top_old["self"].fields["max_furcation_order"], "int")
+            LVL, CAR = z3.Function(fresh_name("LVL"), I, I), z3.Function(fresh_name("CAR"), I, I)
+            x = z3.Int(fresh_name("x"))
+            px = sel(P, x)
+            furc = z3.If(ctx.nkids(x) > 1, 1, 0)
+            E.assume(z3.ForAll([x], z3.Implies(z3.And(x >= 0, x < n), z3.If(px < 0, z3.And(LVL(x) == 0, CAR(x) == 0),
+                     z3.And(LVL(x) == LVL(px) + furc, CAR(x) == z3.If(CAR(px) >= kmax, CAR(px), CAR(px) + furc))))))
+            E.assumptions.add("ghost definition (well-founded recursion over the parent relation): LVL / CAR = furcation level and carried level of CutByFurcationOrder")
+            E.spec_extra["order-ghosts"] = (LVL, CAR, kmax)
+        return E.spec_extra["order-ghosts"]
+
+    def J(E, v, ENT, LEFT, ctx):
+        """cut_tree's `removals` lists exactly the entered nodes whose carried level reaches the order, each once (ghost inverse `at`)"""
+        LVL, CAR, kmax = ghosts(E, ctx)
+        A, ln = list_view(v[REM])
+        at = G6(E).fields["at"].arr
+        a, x = z3.Int(fresh_name("a")), z3.Int(fresh_name("x"))
+        member = lambda q: z3.And(sel(ENT, q), CAR(q) >= kmax)
+        inl = lambda q: z3.And(q >= 0, q < ln)
+        return z3.And(ln >= 0,
+                      z3.ForAll([a], z3.Implies(inl(a), z3.And(ctx.R(sel(A, a)), member(sel(A, a)), sel(at, sel(A, a)) == a))),
+                      z3.ForAll([x], z3.Implies(z3.And(ctx.R(x), member(x)), z3.And(inl(sel(at, x)), sel(A, sel(at, x)) == x))))
+
+    def Qe(E, v, x, val, ctx):
+        LVL, CAR, kmax = ghosts(E, ctx)
+        if not (isinstance(val, tuple) and len(val) == 2):
+            return False
+        return z3.And(to_z3(val[0], "int") == CAR(x), to_z3(E.truth(val[1]), "bool") == (CAR(x) >= kmax))
+
+    def ghost_enter(E, v, x, ctx):
+        A, ln = list_view(v[REM])
+        g = G6(E).fields["at"]
+        g.arr = z3.Store(g.arr, x, ln - 1)
+
+    def count_hint(E, v):
+        """enter step: the row count Node.is_furcation takes is > 1 exactly when the node has two children in the traversal's
+        enumeration (witnesses: the first two counted rows / the first two children)"""
+        ctx, x = E.ghost.get("last-traverse-ctx"), E.ghost.get("traverse-step-node")
+        pre = "CutByFurcationOrder.__call__/step/"
+        for f, pos, mask in E.ghost.get("cnt-rs6-all", []):
+            if ("cnt-linked", f.name()) in E.ghost:
+                continue
+            E.ghost[("cnt-linked", f.name())] = True
+            n = mask.nz()
+            p0, p1 = pos(0), pos(1)
+            k0, k1 = ctx.kid(x, 0), ctx.kid(x, 1)
+            m_ = lambda q: to_z3(mask.get(q), "bool")
+            E.prove(pre + "two-counted-rows-are-two-children", z3.Implies(f(n) > 1, z3.And(0 <= p0, p0 < p1, p1 < n, m_(p0), m_(p1), sel(ctx.P, p0) == x, sel(ctx.P, p1) == x)), "annotation")
+            E.prove(pre + "two-counted-rows-mean-two-children-in-the-enumeration", z3.Implies(f(n) > 1, ctx.nkids(x) > 1), "annotation")
+            E.prove(pre + "two-children-are-two-counted-rows", z3.Implies(ctx.nkids(x) > 1, z3.And(0 <= k0, k0 < k1, k1 < n, m_(k0), m_(k1), f(k0 + 1) >= 1, f(k1) >= 1, f(k1 + 1) >= 2)), "annotation")
+            E.prove(pre + "two-children-mean-a-count-above-one", z3.Implies(ctx.nkids(x) > 1, f(n) > 1), "annotation")
+
+    def furc_hint(E, v):
+        ctx = E.ghost.get("last-traverse-ctx")
+        c = result_of(E)
+        if ctx is None or c is None:
+            return
+        t = c["swc_like"]
+        P, n = col(t, "pid").arr, nof(t)
+        x, a, b = z3.Int(fresh_name("x")), z3.Int(fresh_name("a")), z3.Int(fresh_name("b"))
+        Rg = lambda q: z3.And(q >= 0, q < n)
+        k0, k1 = ctx.kid(x, 0), ctx.kid(x, 1)
+        pre = "CutByFurcationOrder.__call__/step/"
+        E.prove(pre + "the-first-two-children-are-two-distinct-rows", z3.ForAll([x], z3.Implies(z3.And(Rg(x), ctx.nkids(x) > 1), z3.And(Rg(k0), Rg(k1), k0 != k1, sel(P, k0) == x, sel(P, k1) == x))), "annotation")
+        E.prove(pre + "two-distinct-rows-with-one-parent-take-two-places-among-its-children",
+                z3.ForAll([a, b], z3.Implies(z3.And(Rg(a), Rg(b), a != b, sel(P, a) == sel(P, b), sel(P, a) >= 0), ctx.nkids(sel(P, a)) > 1)), "annotation")
+
+    def result_of(E):
+        calls = [kw for nm, kw in E.call_log if nm == "to_subtree"]
+        return calls[0] if len(calls) == 1 else None
+
+    def post(which):
+        def f(E, v, o):
+            res, t = v["result"], o["x"]
+            c = result_of(E)
+            if c is None or res is not c["__result__"] or c["swc_like"] is not v["x"] or c["out_mapping"] is not None or "order-ghosts" not in E.spec_extra:
+                return False
+            gh = K["sub_ghost"](E, res)
+            mapping, kappa, rho, Rm = gh
+            LVL, CAR, kmax = E.spec_extra["order-ghosts"]
+            ctx = E.ghost["last-traverse-ctx"]
+            P, n = col(t, "pid").arr, nof(t)
+            x, a, b = z3.Int(fresh_name("x")), z3.Int(fresh_name("a")), z3.Int(fresh_name("b"))
+            Rg = lambda q: z3.And(q >= 0, q < n)
+            if which == "a-furcation-is-a-node-that-two-distinct-rows-name-as-parent":
+                return z3.ForAll([x], z3.Implies(Rg(x), (ctx.nkids(x) > 1) == z3.Exists([a, b], z3.And(Rg(a), Rg(b), a != b, sel(P, a) == x, sel(P, b) == x))))
+            if which == "removed-iff-the-furcation-level-reaches-the-order":
+                return z3.ForAll([x], z3.Implies(Rg(x), Rm(x) == (LVL(x) >= kmax)))
+            return K["subtree_clause"](E, which, res, t, gh)
+
+        return f
+
+    def induction_hint(E, v):
+        c = result_of(E)
+        if c is None or "order-ghosts" not in E.spec_extra:
+            return
+        t = c["swc_like"]
+        mapping, kappa, rho, Rm = K["sub_ghost"](E, c["__result__"])
+        LVL, CAR, kmax = E.spec_extra["order-ghosts"]
+        P, n = col(t, "pid").arr, nof(t)
+        A, ln = list_view(c["removals"])
+        x, j = z3.Int(fresh_name("x")), z3.Int(fresh_name("j"))
+        Rg = lambda q: z3.And(q >= 0, q < n)
+        pre = "CutByFurcationOrder.__call__/step/"
+        E.prove(pre + "listed-iff-carried-level-reaches-the-order", z3.ForAll([x], z3.Implies(Rg(x), z3.Exists([j], z3.And(j >= 0, j < ln, sel(A, j) == x)) == (CAR(x) >= kmax))), "annotation")
+        # induction 1: the closure to_subtree computes adds nothing (the carried level never drops below the order again)
+        P1 = lambda q: Rm(q) == (CAR(q) >= kmax)
+        # induction 2: the carried level is the furcation level while below the order, and both are at or above it together
+        P2 = lambda q: z3.And(z3.Implies(CAR(q) < kmax, CAR(q) == LVL(q)), z3.Implies(CAR(q) >= kmax, LVL(q) >= kmax))
+        for nm, Pq in (("closure-is-carried-level-at-or-above-the-order", P1), ("carried-level-agrees-with-the-furcation-level", P2)):
+            base = Pq(z3.IntVal(0))
+            step = z3.ForAll([x], z3.Implies(z3.And(Rg(x), x != 0, Pq(sel(P, x))), Pq(x)))
+            E.prove(pre.replace("/step/", "/induction-premise/") + nm + "/at-the-root", base, "lemma")
+            E.prove(pre.replace("/step/", "/induction-premise/") + nm + "/below-an-agreeing-parent", step, "lemma")
+            E.assume(z3.Implies(z3.And(base, step), z3.ForAll([x], z3.Implies(Rg(x), Pq(x)))))
+        E.assumptions.add("assumed-lemma:tree_induction (depth witness) instantiated twice in CutByFurcationOrder.__call__: closure == carried level >= order; carried level vs furcation level")
+
+    POSTS = ["a-furcation-is-a-node-that-two-distinct-rows-name-as-parent", "removed-iff-the-furcation-level-reaches-the-order",
+             "survivors-are-exactly-the-nodes-outside-the-closure-in-order", "survivors-keep-every-attribute",
+             "ids-are-positions-and-parent-relation-kept", "result-shares-no-storage-with-the-input"]
+    R.add(f"{TT}:CutByFurcationOrder.__call__", prop="C06", setup=setup,
+          requires=[K["wf_clause"](w, "x") for w in K["WF"]],
+          ensures=[(nm, post(nm)) for nm in POSTS],
+          options=dict(traverse_rule=Rule(J, Qe=Qe, modifies=[(REM, "int"), G6], enter_kind=lambda E: (fresh("int", "plevel"), fresh("bool", "premoved")), ghost_enter=ghost_enter),
+                       count_model="rank-select",
+                       hints={"enter/invariant-preserved": count_hint, "post/a-furcation-is-a-node-that-two-distinct-rows-name-as-parent": furc_hint,
+                              "post/removed-iff-the-furcation-level-reaches-the-order": induction_hint}),
+          notes="cut_tree and the callback _enter are interpreted from source (inlined) under the traverse rule; to_subtree through its proved contract; "
+                "level(root) = 0, level(x) = level(parent) + [x has more than one child]; removed iff level >= max_furcation_order")
+
+
+_reg6e = register
+
+
+def register(R):  # noqa: F811
+    _reg6e(R)
+    register_order_call(R)
+
+
+# =========================================================================== CutShortTipBranch._leave (fixed numbers of children, symbolic lengths)
+def register_short_tip(R):
+    from contracts.C09 import node_obj
+    from pyvc import ext_C08 as X8
+    from pyvc.values import NArr, Obj, PList, fresh
+
+    K = _SUBTREE_KIT
+    nof, col, sel, list_view = K["nof"], K["col"], K["sel"], K["list_view"]
+    I, B = z3.IntSort(), z3.BoolSort()
+    TT = "swcgeom/transforms/tree.py"
+
+    def first_child(t, a, b):
+        """b is the first row that names a as parent (what `a.children()[0]` is on a table whose ids are positions)"""
+        P, n = col(t, "pid").arr, nof(t)
+        j = z3.Int(fresh_name("j"))
+        return z3.And(b >= 0, b < n, sel(P, b) == a, z3.ForAll([j], z3.Implies(z3.And(j >= 0, j < b), sel(P, j) != a)))
+
+    def is_tip(t, a):
+        P, n = col(t, "pid").arr, nof(t)
+        j = z3.Int(fresh_name("j"))
+        return z3.ForAll([j], z3.Implies(z3.And(j >= 0, j < n), sel(P, j) != a))
+
+    def dist(E, t, a, b):
+        """Euclidean distance of rows a, b (the ghost root pyvc introduces for the same polynomial)"""
+        d = [col(t, c).get(a).z - col(t, c).get(b).z for c in "xyz"]
+        return to_z3(E.sqrt(Sym(d[0] * d[0] + d[1] * d[1] + d[2] * d[2], "real"), nonneg_known=True), "real")
+
+    def setup(k):
+        def f(S):
+            from swcgeom.transforms.tree import CutShortTipBranch
+
+            t = K["raw_tree"](S)
+            log = []
+            cb = S.callback("callback", lambda E, a, kw: log.append(list(a)))
+            cbs = PList([cb])
+            cbs.frozen = True  # _leave must not touch the callback list or its own object (CutShortTipBranch.__call__ relies on it)
+            me = S.obj(CutShortTipBranch, thre=S.real("thre"), callbacks=cbs)
+            me.frozen = True
+            items = []
+            for j in range(k):  # every child result is None (no tip chain below that child) or (length to the tip, handle of the child)
+                if S.eng.branch(S.bool(f"child{j}_has_no_tip_chain")):
+                    items.append(None)
+                else:
+                    items.append((S.real(f"dis{j}"), node_obj(S, t, idx=S.int(f"c{j}"))))
+            ch = PList(items)
+            ch.frozen = True
+            return dict(self=me, n=node_obj(S, t), children=ch, __ghost__=dict(log=log))
+
+        return f
+
+    def pre(which):
+        def f(E, v, o):
+            t = v["n"].fields["attach"]
+            me, n = to_z3(v["n"].fields["idx"], "int"), nof(t)
+            P = col(t, "pid").arr
+            if which == "handle-in-range":
+                return z3.And(me >= 0, me < n)
+            out = []
+            for c in v["children"].items:  # the traversal hands over one result per child, each naming that child
+                if c is not None:
+                    cz = to_z3(c[1].fields["idx"], "int")
+                    out.append(z3.And(cz >= 0, cz < n, sel(P, cz) == me))
+            return z3.And(*out) if out else True
+
+        return f
+
+    def short(E, v, j):
+        """the child result j designates a tip branch no longer than the threshold"""
+        c = v["children"].items[j]
+        t = v["n"].fields["attach"]
+        return to_z3(c[0], "real") + dist(E, t, to_z3(v["n"].fields["idx"], "int"), to_z3(c[1].fields["idx"], "int")) <= to_z3(v["self"].fields["thre"], "real")
+
+    def post(which):
+        def f(E, v, o):
+            from swcgeom.core.tree import Tree
+
+            res, kids, log = v["result"], o["children"].items, E.spec_extra["log"]
+            t = v["n"].fields["attach"]  # the live tree object (frozen: its columns are the entry columns)
+            me = to_z3(o["n"].fields["idx"], "int")
+            if which == "value":
+                if len(kids) == 0:  # a tip: length 0, the node itself
+                    return isinstance(res, tuple) and len(res) == 2 and res[1] is v["n"] and z3.BoolVal(True) and to_z3(res[0], "real") == 0
+                if len(kids) == 1 and kids[0] is not None:  # elongation: the child's length plus the segment to the child
+                    if not (isinstance(res, tuple) and len(res) == 2 and res[1] is v["n"]):
+                        return False
+                    return to_z3(res[0], "real") == to_z3(kids[0][0], "real") + dist(E, t, me, to_z3(kids[0][1].fields["idx"], "int"))
+                return res is None  # a furcation (or a node above one): no tip chain continues through it
+            # which == "callbacks": one call per short tip branch, in the order of the children, with the branch node -> child -> ... -> tip
+            if len(kids) == 0 or (len(kids) == 1 and kids[0] is not None):
+                return len(log) == 0
+            cand = [j for j, c in enumerate(kids) if c is not None]
+            conds = {j: short(E, o, j) for j in cand}
+            out = [z3.Sum([z3.If(conds[j], 1, 0) for j in cand] + [z3.IntVal(0)]) == len(log)]
+            for j in cand:
+                rank = z3.Sum([z3.If(conds[i], 1, 0) for i in cand if i < j] + [z3.IntVal(0)])
+                alts = []
+                for q, args in enumerate(log):
+                    br = args[0] if len(args) == 1 else None
+                    if not (isinstance(br, Obj) and br.cls is Tree.Branch and br.fields.get("attach") is t and isinstance(br.fields.get("idx"), SArr)):
+                        return False
+                    idx = br.fields["idx"]
+                    L, i = idx.nz(), z3.Int(fresh_name("i"))
+                    alts.append(z3.And(rank == q, L >= 2, idx.get(0).z == me, idx.get(1).z == to_z3(kids[j][1].fields["idx"], "int"),
+                                       z3.ForAll([i], z3.Implies(z3.And(i >= 2, i < L), first_child(t, idx.get(i - 1).z, idx.get(i).z))), is_tip(t, idx.get(L - 1).z)))
+                out.append(z3.Implies(conds[j], z3.Or(*alts) if alts else z3.BoolVal(False)))
+            return z3.And(*out)
+
+        return f
+
+    # ---- the walk `while child is not None` (loop 1): path = [n, c, first child of c, ...], child = the next node or None at a tip
+    def opt_node(eng, cur):
+        t = cur.fields["attach"]
+        eng.assumptions.add("list-model: handles built by a comprehension over a symbolic array are stored by their indices (pyvc.ext_C08.ObjList)")
+        if eng.branch(fresh("bool", "walk_done")):
+            return None
+        return Obj(cur.cls, dict(attach=t, idx=fresh("int", "walk_at"), names=cur.fields["names"]))
+
+    def walk_inv(E, v, o, entry):
+        t = v["n"].fields["attach"]
+        me, n = to_z3(v["n"].fields["idx"], "int"), nof(t)
+        start = to_z3(entry["child"].fields["idx"], "int")
+        A, L = list_view(v["path"])
+        i = z3.Int(fresh_name("i"))
+        child = v["child"]
+        out = [L >= 1, sel(A, 0) == me, z3.Implies(L >= 2, sel(A, 1) == start),
+               z3.ForAll([i], z3.Implies(z3.And(i >= 1, i < L), z3.And(sel(A, i) >= 0, sel(A, i) < n))),
+               z3.ForAll([i], z3.Implies(z3.And(i >= 2, i < L), first_child(t, sel(A, i - 1), sel(A, i))))]
+        if child is None:
+            out += [L >= 2, is_tip(t, sel(A, L - 1))]
+        else:
+            cz = to_z3(child.fields["idx"], "int")
+            out += [child.fields["attach"] is t, cz >= 0, cz < n, z3.If(L == 1, cz == start, first_child(t, sel(A, L - 1), cz))]
+        return z3.And(*[x if not isinstance(x, bool) else z3.BoolVal(x) for x in out])
+
+    def walk_measure(E, v, o, entry):
+        return True
+
+    LOOPS = {1: dict(invariant=[("path-runs-from-the-node-through-the-child-along-first-children", walk_inv)], types={"path": "int"}, rebind={"child": opt_node})}
+    _SUBTREE_KIT.update(WALK_LOOP=LOOPS[1])
+    R.add(f"{TT}:CutShortTipBranch._leave", prop="C06",
+          variants={f"{k} child result{'s' if k != 1 else ''}": setup(k) for k in (0, 1, 2, 3)},
+          requires=[K["wf_clause"](w, lambda v: v["n"].fields["attach"]) for w in K["WF"]] + [("handle-in-range", pre("handle-in-range")), ("child-results-name-children-of-the-node", pre("children"))],
+          ensures=[("tip-gives-zero-and-itself-single-chain-child-extends-the-length-otherwise-nothing", post("value")),
+                   ("callbacks-get-exactly-the-tip-branches-no-longer-than-the-threshold-in-child-order", post("callbacks"))],
+          loops=LOOPS,
+          options=dict(models=X8.MODELS),
+          notes="the number of child results is fixed per variant (0..3), each None or (length, child handle) with symbolic real length; coordinates, "
+                "threshold and the depth of the walk are symbolic; termination of the walk is not proved")
+
+
+_reg6f = register
+
+
+def register(R):  # noqa: F811
+    _reg6f(R)
+    register_short_tip(R)
+
+
+# =========================================================================== Tree.get_neurites / Tree.get_dendrites
+def register_neurites(R):
+    from pyvc.values import Obj, fresh
+
+    K = _SUBTREE_KIT
+    nof, col, sel = K["nof"], K["col"], K["sel"]
+    TREE = "swcgeom/core/tree.py"
+
+    def setup(S):
+        return dict(self=K["raw_tree"](S), type_check=S.bool("type_check"))
+
+    def soma_wrong(E, v, o):
+        t = v["self"]
+        return z3.And(to_z3(v["type_check"], "bool"), col(t, "type").get(0).z != t.fields["types"].soma)
+
+    def probe(E, v, o):
+        """ghost exit code: look at an ARBITRARY position of the returned generator (conditions and element expression of the real
+        generator expression evaluated on the item at that position)"""
+        g = v["result"]
+        if not isinstance(g, ext_C06.LazyGen):
+            return
+        j = fresh("int", "position")
+        E.assume(z3.And(j.z >= 0, j.z < g.nz()))
+        E.assumptions.add("list-model: handles built by a comprehension over a symbolic array are stored by their indices (pyvc.ext_C08.ObjList)")
+        item, guard, tree = g.element(E, j)
+        v["__probe__"] = dict(j=j, item=item, guard=guard, tree=tree)
+
+    def post(which, dendrites):
+        def f(E, v, o):
+            g, t = v["result"], o["self"]
+            pr = v.get("__probe__")
+            if not isinstance(g, ext_C06.LazyGen) or pr is None:
+                return False
+            P, n, typ = col(t, "pid").arr, nof(t), col(t, "type").arr
+            m = g.nz()
+            k, k2, r = z3.Int(fresh_name("k")), z3.Int(fresh_name("k2")), z3.Int(fresh_name("r"))
+            at = lambda q: to_z3(g.item(Sym(q, "int")).fields["idx"], "int")  # the row of the source item at position q
+            if which == "source-items-are-the-children-of-the-soma-each-once-in-row-order":
+                flt = getattr(E, "last_filter", None)
+                if flt is None:
+                    return False
+                return z3.And(z3.ForAll([k], z3.Implies(z3.And(k >= 0, k < m), z3.And(at(k) >= 0, at(k) < n, sel(P, at(k)) == 0))),
+                              z3.ForAll([k, k2], z3.Implies(z3.And(0 <= k, k < k2, k2 < m), at(k) < at(k2))),
+                              z3.ForAll([r], z3.Implies(z3.And(r >= 0, r < n, sel(P, r) == 0), z3.And(flt.rho(r) >= 0, flt.rho(r) < m, at(flt.rho(r)) == r))))
+            item, guard, tree = pr["item"], pr["guard"], pr["tree"]
+            if not (isinstance(item, Obj) and item.fields.get("attach") is v["self"]):
+                return False
+            child = to_z3(item.fields["idx"], "int")
+            if which == "a-child-contributes-a-tree-iff-it-is-wanted":
+                ty = t.fields["types"]
+                want = z3.Or(sel(typ, child) == ty.apical_dendrite, sel(typ, child) == ty.basal_dendrite) if dendrites else z3.BoolVal(True)
+                return to_z3(guard, "bool") == want
+            # the tree contributed for the child at this position is the subtree rooted at that child
+            calls = [kw for nm, kw in E.call_log if nm == "get_subtree_impl"]
+            if len(calls) != 1 or not isinstance(tree, Obj) or calls[0]["swc_like"] is not v["self"] or calls[0]["out_mapping"] is not None:
+                return False
+            nd_impl = calls[0]["__result__"][1]
+            rc = K["all_cols"](tree)
+            tup = (rc["id"].nz(), tree.fields["ndata"], tree.fields["source"], tree.fields["names"])
+            if which == "result-shares-no-storage-with-the-input":
+                return all(a.uid not in E.entry_uids for a in rc.values()) and tree.uid not in E.entry_uids
+            return K["gs_clause"](E, which, tup, t, Sym(child, "int"), K["gs_ghost"](E, nd_impl), None)
+
+        return f
+
+    for name, dendrites in (("get_neurites", False), ("get_dendrites", True)):
+        labels = ["source-items-are-the-children-of-the-soma-each-once-in-row-order", "a-child-contributes-a-tree-iff-it-is-wanted"] + \
+                 [w for w in K["GS_POSTS"] if w != "mapping-reported"] + ["result-shares-no-storage-with-the-input"]
+        R.add(f"{TREE}:Tree.{name}", prop="C06", setup=setup,
+              requires=[K["wf_clause"](w, "self") for w in K["WF"]],
+              raises={"ValueError": ("only-when-the-type-check-is-on-and-node-0-is-not-a-soma", soma_wrong)},
+              ghost_exit=probe,
+              ensures=[("a-normal-return-means-the-soma-check-passed-or-was-not-asked-for", lambda E, v, o: z3.Not(soma_wrong(E, o, o)))] + [(("every-dendrite-typed-child-and-no-other-contributes-a-tree" if dendrites else "every-child-contributes-a-tree") if w == "a-child-contributes-a-tree-iff-it-is-wanted" else w, post(w, dendrites)) for w in labels],
+              options=dict(models=ext_C06.MODELS),
+              notes="the result is a generator: it is described by an arbitrary position of its source (the children of node 0 in row order): "
+                    "whether that child contributes, and that its tree is the subtree rooted at it (get_subtree_impl through its proved contract)")
+
+
+_reg6g = register
+
+
+def register(R):  # noqa: F811
+    _reg6g(R)
+    register_neurites(R)
+
+
+# =========================================================================== CutShortTipBranch.__call__ (whole traversal, any number of children)
+def register_short_tip_call(R):
+    from pyvc.traverse_rule import Rule
+    from pyvc.values import Obj, PList, fresh
+
+    K = _SUBTREE_KIT
+    nof, col, sel, list_view = K["nof"], K["col"], K["sel"], K["list_view"]
+    I, B, RS = z3.IntSort(), z3.BoolSort(), z3.RealSort()
+    TT = "swcgeom/transforms/tree.py"
+    LEAVE = f"{TT}:CutShortTipBranch._leave"
+
+    def setup(with_callback):
+        def f(S):
+            from swcgeom.transforms.tree import CutShortTipBranch
+
+            t = K["raw_tree"](S)
+            cbs = PList([S.callback("user_callback", lambda E, a, kw: None)] if with_callback else [])
+            G = Obj(GhostList, dict(at=SArr(z3.K(I, z3.IntVal(-1)), nof(t), "int", name="at")))  # ghost: position of a node in `removals`
+            return dict(self=S.obj(CutShortTipBranch, thre=S.real("thre"), callbacks=cbs), x=t, __ghost__=dict(G6=G))
+
+        return f
+
+    G6 = lambda E: E.spec_extra["G6"]
+
+    def sq_dist(t, a, b):
+        d = [col(t, c).get(a).z - col(t, c).get(b).z for c in "xyz"]
+        return d[0] * d[0] + d[1] * d[1] + d[2] * d[2]
+
+    def ghosts(E, ctx):
+        """ghost definitions, made once per path when the traversal starts (recursion over the finite tree, children first):
+        DIST(a, b) = Euclidean distance of rows a, b;   TC(x) = the nodes below x form a single chain down to a tip (x is a tip, or x
+        has exactly one child and that child is TC);   LEN(x) = length of that chain from x to its tip"""
+        if "tip-ghosts" not in E.spec_extra:
+            t = E.top_old["x"]
+            n = nof(t)
+            DIST, TC, LEN = z3.Function(fresh_name("DIST"), I, I, RS), z3.Function(fresh_name("TC"), I, B), z3.Function(fresh_name("LEN"), I, RS)
+            a, b, x = z3.Int(fresh_name("a")), z3.Int(fresh_name("b")), z3.Int(fresh_name("x"))
+            E.assume(z3.ForAll([a, b], z3.And(DIST(a, b) >= 0, DIST(a, b) * DIST(a, b) == sq_dist(t, a, b)), patterns=[DIST(a, b)]))
+            k0 = ctx.kid(x, 0)
+            E.assume(z3.ForAll([x], z3.Implies(z3.And(x >= 0, x < n), z3.And(
+                TC(x) == z3.Or(ctx.nkids(x) == 0, z3.And(ctx.nkids(x) == 1, TC(k0))),
+                LEN(x) == z3.If(ctx.nkids(x) == 0, z3.RealVal(0), LEN(k0) + DIST(x, k0))))))
+            E.assumptions.add("ghost definitions (recursion over the finite tree, children first): DIST (Euclidean distance of two rows), TC (single chain down to a tip), LEN (length of that chain) of CutShortTipBranch")
+            E.spec_extra["tip-ghosts"] = (DIST, TC, LEN, to_z3(E.top_old["self"].fields["thre"], "real"))
+        return E.spec_extra["tip-ghosts"]
+
+    def seed_pred(E, ctx, t):
+        """c starts a tip branch no longer than the threshold at a furcation (a node with two or more children)"""
+        DIST, TC, LEN, thre = ghosts(E, ctx)
+        P, n = col(t, "pid").arr, nof(t)
+        return lambda c: z3.And(c >= 0, c < n, sel(P, c) >= 0, ctx.nkids(sel(P, c)) >= 2, TC(c), LEN(c) + DIST(sel(P, c), c) <= thre)
+
+    def J(E, v, ENT, LEFT, ctx):
+        """`removals` lists exactly the first nodes of the short tip branches hanging at the furcations left so far, each once
+        (ghost inverse `at`)"""
+        t = v["x"]
+        seed = seed_pred(E, ctx, t)
+        P = col(t, "pid").arr
+        A, ln = list_view(recorder_list(v))
+        at = G6(E).fields["at"].arr
+        a, c = z3.Int(fresh_name("a")), z3.Int(fresh_name("c"))
+        mem = lambda q: z3.And(seed(q), sel(LEFT, sel(P, q)))
+        return z3.And(ln >= 0, z3.ForAll([a], z3.Implies(z3.And(a >= 0, a < ln), z3.And(mem(sel(A, a)), sel(at, sel(A, a)) == a))),
+                      z3.ForAll([c], z3.Implies(mem(c), z3.And(sel(at, c) >= 0, sel(at, c) < ln, sel(A, sel(at, c)) == c))))
+
+    def Ql(E, v, x, val, ctx):
+        DIST, TC, LEN, thre = ghosts(E, ctx)
+        if val is None:
+            return z3.Not(TC(x))
+        if not (isinstance(val, tuple) and len(val) == 2 and isinstance(val[1], Obj) and val[1].fields.get("attach") is v["x"]):
+            return False
+        return z3.And(TC(x), to_z3(val[0], "real") == LEN(x), to_z3(val[1].fields["idx"], "int") == x)
+
+    def leave_args(E, v, x, ctx):
+        """the child results handed to _leave at x: entry k describes the k-th child (None iff no single chain runs below it)"""
+        from swcgeom.core.tree import Tree
+
+        DIST, TC, LEN, thre = ghosts(E, ctx)
+        t = v["x"]
+
+        def seed_root(eng, lst, kz):
+            # the square root the code takes for (x, k-th child) IS the ghost distance (same polynomial, both roots non-negative)
+            c = z3.Select(lst.node, kz)
+            key = ("sqrt", z3.simplify(sq_dist(t, x, c), som=True).sexpr())
+            eng.ghost.setdefault(key, Sym(DIST(x, c), "real"))
+
+        args = ext_C06.OptPairList(ctx.nkids(x), t, Tree.Node, on_element=seed_root)
+        k = z3.Int(fresh_name("k"))
+        c = ctx.kid(x, k)
+        E.assume(z3.ForAll([k], z3.Implies(z3.And(0 <= k, k < ctx.nkids(x)), z3.And(z3.Select(args.none, k) == z3.Not(TC(c)), z3.Select(args.node, k) == c,
+                                                                                   z3.Implies(TC(c), z3.Select(args.dis, k) == LEN(c))))))
+        A, ln = list_view(recorder_list(v))
+        # ghost definition (recursion over the naturals): CNT(j) = how many of the first j children of x start a short tip branch
+        CNT = z3.Function(fresh_name("CNT"), I, I)
+        j = z3.Int(fresh_name("j"))
+        memx = lambda q: z3.And(TC(q), LEN(q) + DIST(x, q) <= thre)
+        E.assume(z3.And(CNT(0) == 0, z3.ForAll([j], z3.Implies(j >= 0, CNT(j + 1) == CNT(j) + z3.If(memx(ctx.kid(x, j)), 1, 0)), patterns=[CNT(j + 1)])))
+        E.ghost["ctb-step"] = dict(x=x, A0=A, r0=ln, args=args, ctx=ctx, CNT=CNT, memx=memx)
+        E.assumptions.add("ghost definition (recursion over the naturals), one per leave step of CutShortTipBranch: CNT(j) = number of short tip-chain children among the first j children")
+        E.assumptions.add("ghost identification: the square root the code takes for (node, k-th child) is DIST(node, child) (same sum of squares, both roots non-negative)")
+        E.assumptions.add("list-model: the child results handed to CutShortTipBranch._leave are a read-only list of Optional[(float, Node handle)] entries (pyvc.ext_C06.OptPairList)")
+        E.assumptions.add("list-model: handles built by a comprehension over a symbolic array are stored by their indices (pyvc.ext_C08.ObjList)")
+        return args
+
+    def ghost_leave(E, v, x, ctx):
+        """every child of x that starts a short tip branch now sits in `removals` at position r0 + (number of such children before it)"""
+        st = E.ghost["ctb-step"]
+        g = G6(E).fields["at"]
+        c = z3.Int(fresh_name("c"))
+        st["at_old"] = g.arr
+        g.arr = z3.Lambda([c], z3.If(z3.And(ctx.R(c), sel(ctx.P, c) == x, st["memx"](c)), st["r0"] + st["CNT"](ctx.rank(c)), sel(g.arr, c)))
+
+    def leave_result(E):
+        from swcgeom.core.tree import Tree
+
+        if E.branch(fresh("bool", "root_result_is_none")):
+            return None
+        t = E.top_old["x"]
+        live = E.cur_frame.lookup("x") if E.cur_frame is not None else None
+        return (fresh("real", "root_len"), Obj(Tree.Node, dict(attach=live, idx=fresh("int", "root_at"), names=t.fields["names"])))
+
+    def recorder_list(fr_or_vars):
+        """the list the recording callback appends to: the free variable X of `lambda br: X.append(...)`, last entry of self.callbacks
+        (found through the closure, so that the carrier's local may have any name)"""
+        import ast as _ast
+
+        me = fr_or_vars.lookup("self") if hasattr(fr_or_vars, "lookup") else fr_or_vars["self"]
+        lam = me.fields["callbacks"].items[-1]
+        body = getattr(lam.node, "body", None)
+        name = "removals"
+        if isinstance(body, _ast.Call) and isinstance(body.func, _ast.Attribute) and isinstance(body.func.value, _ast.Name):
+            name = body.func.value.id
+        return lam.frame.lookup(name)
+
+    def for_inv(which):
+        """_leave's loop over the child results at x: `removals` has grown by exactly the short tip-chain children among the first k,
+        the j-th child (if it is one) at position r0 + CNT(j)"""
+        def f(E, v, o, entry):
+            st = E.ghost.get("ctb-step")
+            if st is None:
+                return False
+            x, A0, r0, ctx, CNT, memx = st["x"], st["A0"], st["r0"], st["ctx"], st["CNT"], st["memx"]
+            t = v["n"].fields["attach"]
+            P = col(t, "pid").arr
+            A, ln = list_view(recorder_list(v))
+            k = to_z3(v["_k0"], "int")
+            a, j = z3.Int(fresh_name("a")), z3.Int(fresh_name("j"))
+            if which == "earlier-entries-kept-and-one-new-entry-per-short-tip-chain-child-so-far":
+                return z3.And(ln == r0 + CNT(k), CNT(k) >= 0, z3.ForAll([a], z3.Implies(z3.And(a >= 0, a < r0), sel(A, a) == sel(A0, a))))
+            if which == "counts-never-decrease":
+                return z3.ForAll([j], z3.Implies(z3.And(0 <= j, j <= k), z3.And(CNT(j) >= 0, CNT(j) <= CNT(k))))
+            if which == "short-tip-chain-children-seen-so-far-sit-at-their-count":
+                return z3.ForAll([j], z3.Implies(z3.And(0 <= j, j < k, memx(ctx.kid(x, j))), z3.And(CNT(j) < CNT(k), sel(A, r0 + CNT(j)) == ctx.kid(x, j))))
+            if which == "new-entries-are-short-tip-chain-children-seen-so-far":
+                q = sel(A, a)
+                return z3.ForAll([a], z3.Implies(z3.And(a >= r0, a < ln), z3.And(ctx.R(q), sel(P, q) == x, ctx.rank(q) >= 0, ctx.rank(q) < k, memx(q), a == r0 + CNT(ctx.rank(q)))))
+            raise KeyError(which)
+
+        return f
+
+    def for_hint(E, v):
+        """iteration k appended (at most) the k-th child: name the appended value before the invariant is re-proved"""
+        st = E.ghost.get("ctb-step")
+        if st is None or "_k0" not in v or "n" not in v:
+            return
+        x, ctx = st["x"], st["ctx"]
+        k = to_z3(v["_k0"], "int") - 1  # the iteration just completed
+        A, ln = list_view(recorder_list(v))
+        if "br" in v and v.get("child") is None and "path" in v:  # this iteration recorded a branch
+            c = ctx.kid(x, k)
+            E.prove("CutShortTipBranch.__call__/step/the-recorded-node-is-the-child-of-this-iteration", z3.And(sel(A, ln - 1) == c, ctx.rank(c) == k, sel(ctx.P, c) == x, ctx.R(c)), "annotation")
+
+    def leave_hint(E, v):
+        """leave step at x: how the ghost inverse `at` and the list changed, piece by piece"""
+        st = E.ghost.get("ctb-step")
+        if st is None or "at_old" not in st:
+            return
+        x, A0, r0, ctx, CNT, memx = st["x"], st["A0"], st["r0"], st["ctx"], st["CNT"], st["memx"]
+        A, ln = list_view(recorder_list(v))
+        at1, at0 = G6(E).fields["at"].arr, st["at_old"]
+        P = ctx.P
+        a, c = z3.Int(fresh_name("a")), z3.Int(fresh_name("c"))
+        pre = "CutShortTipBranch.__call__/step/"
+        E.prove(pre + "positions-of-nodes-under-other-parents-unchanged", z3.ForAll([c], z3.Implies(z3.And(ctx.R(c), sel(P, c) != x), sel(at1, c) == sel(at0, c))), "annotation")
+        E.prove(pre + "earlier-entries-kept-and-they-hang-under-other-parents", z3.And(ln >= r0, z3.ForAll([a], z3.Implies(z3.And(a >= 0, a < r0), z3.And(sel(A, a) == sel(A0, a), sel(P, sel(A, a)) != x)))), "annotation")
+        E.prove(pre + "new-entries-are-the-short-tip-chain-children-of-this-furcation-at-their-positions",
+                z3.ForAll([a], z3.Implies(z3.And(a >= r0, a < ln), z3.And(ctx.nkids(x) >= 2, ctx.R(sel(A, a)), sel(P, sel(A, a)) == x, memx(sel(A, a)), sel(at1, sel(A, a)) == a))), "annotation")
+        E.prove(pre + "every-short-tip-chain-child-of-this-furcation-is-listed-at-its-position",
+                z3.Implies(ctx.nkids(x) >= 2, z3.ForAll([c], z3.Implies(z3.And(ctx.R(c), sel(P, c) == x, memx(c)), z3.And(sel(at1, c) >= r0, sel(at1, c) < ln, sel(A, sel(at1, c)) == c)))), "annotation")
+
+    FOR_INVS = ["earlier-entries-kept-and-one-new-entry-per-short-tip-chain-child-so-far", "counts-never-decrease",
+                "short-tip-chain-children-seen-so-far-sit-at-their-count", "new-entries-are-short-tip-chain-children-seen-so-far"]
+    FOR_LOOP = dict(invariant=[(w, for_inv(w)) for w in FOR_INVS], modifies=[lambda eng, fr: recorder_list(fr)])
+
+    def result_of(E):
+        calls = [kw for nm, kw in E.call_log if nm == "to_subtree"]
+        return calls[0] if len(calls) == 1 else None
+
+    def post(which):
+        def f(E, v, o):
+            res, t = v["result"], o["x"]
+            c = result_of(E)
+            ctx = E.ghost.get("last-traverse-ctx")
+            if which == "callbacks-restored":
+                cb1, cb0 = v["self"].fields["callbacks"], o["self"].fields["callbacks"]
+                return cb1.uid == cb0.uid and cb1.items is not None and len(cb1.items) == len(cb0.items) and all(p is q for p, q in zip(cb1.items, cb0.items))
+            if c is None or ctx is None or res is not c["__result__"] or c["swc_like"] is not v["x"] or c["out_mapping"] is not None:
+                return False
+            gh = K["sub_ghost"](E, res)
+            P, n = col(t, "pid").arr, nof(t)
+            x, a, b = z3.Int(fresh_name("x")), z3.Int(fresh_name("a")), z3.Int(fresh_name("b"))
+            Rg = lambda q: z3.And(q >= 0, q < n)
+            if which == "a-furcation-is-a-node-that-two-distinct-rows-name-as-parent":
+                return z3.ForAll([x], z3.Implies(Rg(x), (ctx.nkids(x) >= 2) == z3.Exists([a, b], z3.And(Rg(a), Rg(b), a != b, sel(P, a) == x, sel(P, b) == x))))
+            if which == "removal-closure-is-removed-or-below-a-removed-node":
+                return K["subtree_clause"](E, which, res, t, gh, seed=seed_pred(E, ctx, t))
+            return K["subtree_clause"](E, which, res, t, gh)
+
+        return f
+
+    def furc_hint(E, v):
+        ctx, c = E.ghost.get("last-traverse-ctx"), result_of(E)
+        if ctx is None or c is None:
+            return
+        t = c["swc_like"]
+        P, n = col(t, "pid").arr, nof(t)
+        x, a, b = z3.Int(fresh_name("x")), z3.Int(fresh_name("a")), z3.Int(fresh_name("b"))
+        Rg = lambda q: z3.And(q >= 0, q < n)
+        k0, k1 = ctx.kid(x, 0), ctx.kid(x, 1)
+        pre = "CutShortTipBranch.__call__/step/"
+        E.prove(pre + "the-first-two-children-are-two-distinct-rows", z3.ForAll([x], z3.Implies(z3.And(Rg(x), ctx.nkids(x) > 1), z3.And(Rg(k0), Rg(k1), k0 != k1, sel(P, k0) == x, sel(P, k1) == x))), "annotation")
+        E.prove(pre + "two-distinct-rows-with-one-parent-take-two-places-among-its-children",
+                z3.ForAll([a, b], z3.Implies(z3.And(Rg(a), Rg(b), a != b, sel(P, a) == sel(P, b), sel(P, a) >= 0), ctx.nkids(sel(P, a)) > 1)), "annotation")
+
+    def listed_hint(E, v):
+        ctx, c = E.ghost.get("last-traverse-ctx"), result_of(E)
+        if ctx is None or c is None:
+            return
+        t = c["swc_like"]
+        seed = seed_pred(E, ctx, t)
+        A, ln = list_view(c["removals"])
+        x, j = z3.Int(fresh_name("x")), z3.Int(fresh_name("j"))
+        E.prove("CutShortTipBranch.__call__/step/listed-iff-first-node-of-a-short-tip-branch-at-a-furcation",
+                z3.ForAll([x], z3.Implies(z3.And(x >= 0, x < nof(t)), z3.Exists([j], z3.And(j >= 0, j < ln, sel(A, j) == x)) == seed(x))), "annotation")
+
+    POSTS = ["a-furcation-is-a-node-that-two-distinct-rows-name-as-parent", "removal-closure-is-removed-or-below-a-removed-node",
+             "survivors-are-exactly-the-nodes-outside-the-closure-in-order", "survivors-keep-every-attribute",
+             "ids-are-positions-and-parent-relation-kept", "result-shares-no-storage-with-the-input", "callbacks-restored"]
+    LABEL = {"removal-closure-is-removed-or-below-a-removed-node": "removed-iff-first-node-of-a-tip-branch-within-the-threshold-at-a-furcation-or-below-a-removed-node",
+             "callbacks-restored": "the-callback-list-is-as-it-was"}
+    R.add(f"{TT}:CutShortTipBranch.__call__", prop="C06",
+          variants={"no user callback": setup(False), "with a user callback": setup(True)},
+          requires=[K["wf_clause"](w, "x") for w in K["WF"]],
+          ensures=[(LABEL.get(nm, nm), post(nm)) for nm in POSTS],
+          inlined_loops={LEAVE: {0: FOR_LOOP, 1: K["WALK_LOOP"]}},
+          options=dict(traverse_rule=Rule(J, Ql=Ql, modifies=[lambda E: (recorder_list(E.cur_frame), "int"), G6], leave_args_at=leave_args, leave_result=leave_result, ghost_leave=ghost_leave),
+                       models=ext_C06.MODELS,
+                       hints={"post/a-furcation-is-a-node-that-two-distinct-rows-name-as-parent": furc_hint, "loop0/preserved/earlier-entries-kept-and-one-new-entry-per-short-tip-chain-child-so-far": for_hint, "leave/invariant-preserved": leave_hint,
+                              }),
+          notes="_leave is interpreted from source (inlined) under the traverse rule for ANY number of children; to_subtree through its proved contract; "
+                "tip branch = a child of a furcation below which a single chain runs to a tip; its length is measured from the furcation")
+
+
+_reg6h = register
+
+
+def register(R):  # noqa: F811
+    _reg6h(R)
+    register_short_tip_call(R)
